@@ -1,389 +1,27 @@
 """C08 — multisequence partition / selection: lexicographic tie-break comparators,
 orientation of the priority queues and edge scans, stable middle decision, index
-guards, twin agreement of the two copies."""
+guards, twin agreement of the two copies.
+
+Verdict policy of this file: a violation is only reported on positive evidence (a row of a decision table, a recognised
+element of the wrong edge, a concrete comparator type, a dominating test that is strictly stronger, a path on which every
+branch is read).  Whatever is merely *not found* - a sequence-length table filled in an unknown way, a branch decided by
+a flag / helper / `!=` test the linear engine cannot read, a queue fed through an unknown member, a scan pointer written
+in an unknown form - is `Undecidable` (exit 2).  Locals are never identified by name: the sequence-length table is the
+container filled with distance(begin_seqs[k].first, begin_seqs[k].second), the border arrays are the ones the edge scans
+read, the skew is the local defined from the rank parameter whose sign tests dominate the queues, begin_seqs and rank
+are the first and third parameter of the public signature."""
+import itertools
+
 from engine import ir, dtable, match, mustfact, linear, cfg as cfgm
 from engine.ir import kids, strip_casts, const_int, ref_of
 
 PART = "tlx::multisequence_partition"
 SEL = "tlx::multisequence_selection"
 
-
-def check_lexi(ck, tu):
-    for cls, rev in (("lexicographic", False), ("lexicographic_rev", True)):
-        fns = [f for f in tu.functions if f.kind == "operator" and f.record and f.record.endswith("::" + cls) and f.d.get("op") == "()"]
-        ck.require(fns, "%s::operator() not instantiated" % cls)
-        for fn in fns:
-            p1, p2 = fn.params[0]["did"], fn.params[1]["did"]
-
-            def atomize(n, run):
-                fc = match.functor_call(n)
-                if fc and match.this_field(fc[0]) == "comp_" and len(fc[1]) == 2:
-                    w = []
-                    for a in fc[1]:
-                        f = match.field_of(a)
-                        w.append((1 if ref_of(f[0]) == p1 else 2) if f and f[1] == "first" else None)
-                    if w == [1, 2]:
-                        return ("c12", False)
-                    if w == [2, 1]:
-                        return ("c21", False)
-                b = match.binop(n, ("<", ">"))
-                if b:
-                    fa, fb = match.field_of(b[1]), match.field_of(b[2])
-                    if fa and fb and fa[1] == fb[1] == "second":
-                        first_is_1 = ref_of(fa[0]) == p1
-                        lt12 = (b[0] == "<") == first_is_1
-                        return ("s12", False) if lt12 else ("s21", False)
-                return None
-            leaves = dtable.explore(fn.body, atomize, fn)
-            atoms = ["c12", "c21", "s12", "s21"]
-            bad = None
-            rows = 0
-            for v, lf in dtable.table(leaves, lambda v: not (v["c12"] and v["c21"]) and not (v["s12"] and v["s21"]), atoms):
-                rows += 1
-                r = dtable.Run(atomize, v, fn).truth(lf["stop"][1][0]) if lf["stop"][0] == "return" else None
-                lt = v["c12"] or (not v["c12"] and not v["c21"] and v["s12"])
-                gt = v["c21"] or (not v["c12"] and not v["c21"] and v["s21"])
-                want = gt if rev else lt
-                if (lt or gt) and r != want:
-                    bad = v
-            tag = "%s (%s)" % (cls, fn.record.split("::")[1])
-            if bad:
-                ck.violation("LEXI-TABLE", fn.qname, tag.replace(" ", ""), "%s is not the %s lexicographic order on (value, sequence): wrong for %s" % (cls, "reversed" if rev else "strict", dtable.fmt_val(bad)), fn.loc)
-            else:
-                ck.ok("LEXI-TABLE", tag, "%d rows: %s (value, sequence index) order" % (rows, "reversed strict" if rev else "strict"))
-
-
-def seq_access(n):
-    """(seq_index_expr, element_index_expr) if n is begin_seqs[X].first[E]"""
-    p = match.index_parts(n)
-    if not p:
-        return None
-    f = match.field_of(p[0])
-    if not f or f[1] != "first":
-        return None
-    q = match.index_parts(f[0])
-    if not q or ir.ref_name(q[0]) != "begin_seqs":
-        return None
-    return q[1], p[1]
-
-
-def conjuncts(c):
-    out = []
-
-    def flat(n):
-        b = match.binop(n, ("&&",))
-        if b and strip_casts(n)["k"] == "BinaryOperator":
-            flat(b[1]); flat(b[2])
-        else:
-            out.append(n)
-    flat(c)
-    return out
-
-
-def dominating_conds(fn, node):
-    """conditions known true at node: enclosing if/for/while conditions (then-branch / body) and left operands of &&"""
-    out = []
-    n, par = node, fn.parent(node)
-    while par is not None:
-        if par["k"] == "IfStmt" and kids(par)[1] is not None and any(y is n for y in ir.walk(kids(par)[1])):
-            out += [(c, True) for c in conjuncts(kids(par)[0])]
-        elif par["k"] == "IfStmt" and kids(par)[2] is not None and any(y is n for y in ir.walk(kids(par)[2])):
-            cs = conjuncts(kids(par)[0])
-            if len(cs) == 1:
-                out.append((cs[0], False))
-        elif par["k"] in ("ForStmt", "WhileStmt"):
-            init, cond, inc, body = match.loop_parts(par)
-            if cond is not None and body is not None and any(y is n for y in ir.walk(body)):
-                out += [(c, True) for c in conjuncts(cond)]
-        elif par["k"] == "BinaryOperator" and par.get("op") == "&&" and len(kids(par)) == 2 and (kids(par)[1] is n or any(y is n for y in ir.walk(kids(par)[1]))):
-            out += [(c, True) for c in conjuncts(kids(par)[0])]
-        n, par = par, fn.parent(par)
-    return out
-
-
-def writes_to(n):
-    """declaration id written by node n (assignment / compound assignment / ++ / --), and the index parts if an element"""
-    w = match.unop(n, ("++", "--")) or (match.binop(n, ("=", "+=", "-=", "*=", "/=")) if n["k"] in ("BinaryOperator", "CompoundAssignOperator", "CXXOperatorCallExpr") else None)
-    if not w:
-        return None, None
-    ip = match.index_parts(w[1])
-    return (ref_of(ip[0]) if ip else ref_of(w[1])), ip
-
-
-def flag_guard(fn, g, x, what):
-    """a missing guard is only reported when no branch that dominates x is decided by something this rule cannot read: a
-    bool flag variable or a project helper returning bool may carry the test"""
-    px = g.pos_deep(x)
-    for bid, blk in g.blocks.items():
-        els = g.elements(bid)
-        if len(blk.get("succ", [])) != 2 or not els or not isinstance(els[-1], int) or blk.get("term") is None:
-            continue
-        c = fn.byid(els[-1])
-        if c is None or not g.dominates((bid, len(els) - 1), px):
-            continue
-        c0 = strip_casts(c)
-        while c0 is not None and (c0["k"] == "ParenExpr" or (c0["k"] == "UnaryOperator" and c0.get("op") == "!")):
-            c0 = strip_casts(kids(c0)[0])
-        if c0 is None:
-            continue
-        is_flag = c0["k"] == "DeclRefExpr" and (c0.get("ty") or "").replace("const ", "") == "bool" and c0["ref"].get("kind") == "local"
-        is_helper = "callee" in c0 and c0["k"] in ("CallExpr", "CXXMemberCallExpr") and fn.tu.by_did.get(c0["callee"].get("did")) is not None
-        if is_flag or is_helper:
-            raise dtable.Undecidable("%s: %s may be established by %s, which this rule cannot read" % (fn.loc, what, dtable.describe(c0)))
-
-
-def check_index_guards(ck, fn, tag):
-    """INDEX-GUARD: every begin_seqs[X].first[E] is reached only over branch edges that establish the needed bound
-    (E < seqlen[X], or E' > 0 for E = E' - 1), as canonical linear inequalities, with no write to the index in between
-    (must-fact over the CFG: early `continue`, negated tests and || chains count like nested ifs).
-    GUARD-EXACT: one of those edges is exactly the bound - a stronger test skips a candidate that exists.
-    LEFT-BORDER-BOUND: a left border that is still zero is moved by K only under exactly K <= seqlen."""
-    n_acc = 0
-    bad = 0
-    g = cfgm.CFG(fn)
-    L = linear.Lin(fn, g)
-    left_arrays = set()
-    for x in fn.nodes():
-        sa = seq_access(x) if x["k"] in ("ArraySubscriptExpr", "CXXOperatorCallExpr") else None
-        if not sa:
-            continue
-        X, E = sa
-        n_acc += 1
-        Es = strip_casts(E)
-        if const_int(Es) == 0:
-            continue            # element 0 of a non-empty sequence (precondition)
-        sub = match.binop(Es, ("-",))
-        lower = bool(sub and const_int(sub[2]) == 1)
-        if lower and match.index_parts(sub[1]) and ref_of(match.index_parts(sub[1])[0]) is not None:
-            left_arrays.add(ref_of(match.index_parts(sub[1])[0]))
-        seqlen_x = None
-        for y in fn.nodes():
-            p_ = match.index_parts(y) if y["k"] in ("ArraySubscriptExpr", "CXXOperatorCallExpr") else None
-            if p_ and ir.ref_name(p_[0]) == "seqlen" and match.same_expr(p_[1], X):
-                seqlen_x = y
-                break
-        if lower:
-            need = L.req(Es, None, False, use=x) if False else linear.canon(*_ge0(L, Es, x))
-        else:
-            if seqlen_x is None:
-                ck.violation("INDEX-GUARD", fn.qname, "%s:%s" % (tag, dtable.describe(x)),
-                             "%s is read but seqlen[%s] is never tested" % (dtable.describe(x), dtable.describe(X)), fn.nloc(x))
-                bad += 1
-                continue
-            need = L.req(seqlen_x, Es, True, use=x)
-        names = {y["ref"]["id"] for e_ in (E, X) for y in ir.walk(e_) if y["k"] == "DeclRefExpr"}
-
-        def effect(n, names=names, E=E):
-            d, ip = writes_to(n)
-            if d is None or d not in names:
-                return None
-            if ip and not any(match.same_expr(ip[1], q[1]) for y in ir.walk(E) for q in [match.index_parts(y)] if q and ref_of(q[0]) == d):
-                return None         # another element of the array
-            return "kill"
-        safe = mustfact.MustFact(fn, g, lambda c, t, need=need: any(linear.implies(a_, need) for a_ in L.implied(c, t)), effect)
-        if safe.before(x) is not True:
-            flag_guard(fn, g, x, "the bound of %s" % dtable.describe(x))
-            ck.violation("INDEX-GUARD", fn.qname, "%s:%s" % (tag, dtable.describe(x)),
-                         "%s is read on a path without a test that the index is inside the sequence (needs %s >= 0)"
-                         % (dtable.describe(x), linear.show(need)), fn.nloc(x))
-            bad += 1
-            continue
-        exact = mustfact.MustFact(fn, g, lambda c, t, need=need: any(linear.same(a_, need) for a_ in L.implied(c, t)), effect)
-        if exact.before(x) is not True:
-            ck.violation("GUARD-EXACT", fn.qname, "%s:%s" % (tag, dtable.describe(x)),
-                         "%s is only reached under a test that is stronger than `the element exists` (%s >= 0): an existing candidate is skipped"
-                         % (dtable.describe(x), linear.show(need)), fn.nloc(x))
-            bad += 1
-    if not bad:
-        ck.ok("INDEX-GUARD", tag, "%d element accesses, each reached only over edges that establish index < seqlen[...] (or index-1 with index > 0)" % n_acc)
-        ck.ok("GUARD-EXACT", tag, "for each of them one guarding edge is exactly the existence of the element (canonical linear form)")
-    # left borders moved while still zero
-    n_lb = 0
-    for z in fn.nodes():
-        if z["k"] != "CompoundAssignOperator" or z.get("op") != "+=":
-            continue
-        d, ip = writes_to(z)
-        if d not in left_arrays or not ip:
-            continue
-        pz = g.pos_deep(z)
-        earlier = [w for w in L.writes.get(d, []) if w is not z and g.pos_deep(w) is not None and g.reachable(g.pos_deep(w), pz)
-                   and not (pz is not None and g.reachable(pz, g.pos_deep(w)) and g.dominates(pz, g.pos_deep(w)))]
-        if any(not (match.binop(w, ("=",)) and const_int(match.binop(w, ("=",))[2]) == 0) for w in earlier):
-            continue            # not known to be zero here: nothing to decide
-        seqlen_x = None
-        for y in fn.nodes():
-            p_ = match.index_parts(y) if y["k"] in ("ArraySubscriptExpr", "CXXOperatorCallExpr") else None
-            if p_ and ir.ref_name(p_[0]) == "seqlen" and match.same_expr(p_[1], ip[1]):
-                seqlen_x = y
-                break
-        if seqlen_x is None:
-            raise dtable.Undecidable("%s: no seqlen[] test for the left border moved at line %s" % (fn.loc, z.get("l")))
-        K = kids(z)[1]
-        need = L.req(seqlen_x, K, False, use=z)
-        names = {y["ref"]["id"] for e_ in (K, ip[1]) for y in ir.walk(e_) if y["k"] == "DeclRefExpr"}
-
-        def effect2(n, names=names):
-            d2, ip2 = writes_to(n)
-            return "kill" if d2 is not None and d2 in names and n is not z and not ip2 else None
-        n_lb += 1
-        sf = mustfact.MustFact(fn, g, lambda c, t: any(linear.implies(a_, need) for a_ in L.implied(c, t)), effect2)
-        ex = mustfact.MustFact(fn, g, lambda c, t: any(linear.same(a_, need) for a_ in L.implied(c, t)), effect2)
-        if sf.before(z) is not True:
-            flag_guard(fn, g, z, "the bound of %s" % dtable.describe(z)[:40])
-            ck.violation("LEFT-BORDER-BOUND", fn.qname, "%s:%s" % (tag, dtable.describe(z)[:40]),
-                         "the left border is moved by %s without a test that the sequence is that long (needs %s >= 0): the border leaves the sequence"
-                         % (dtable.describe(K), linear.show(need)), fn.nloc(z))
-        elif ex.before(z) is not True:
-            ck.violation("LEFT-BORDER-BOUND", fn.qname, "%s:%s" % (tag, dtable.describe(z)[:40]),
-                         "the left border is moved by %s only under a test stronger than `the sequence is that long` (%s >= 0): a sequence of exactly "
-                         "that length keeps its border at zero" % (dtable.describe(K), linear.show(need)), fn.nloc(z))
-        else:
-            ck.ok("LEFT-BORDER-BOUND", "%s @%s" % (tag, fn.nloc(z)), "a zero left border moves by K exactly when K <= seqlen")
-    return n_lb
-
-
-def _ge0(L, e, use):
-    f = L.form(e, use)
-    return ({t: k for t, k in f[0].items() if k}, f[1])
-
-
-def resolve_elem(fn, e, depth=0):
-    """(X, E) if e denotes (the address of / a reference or pointer to) begin_seqs[X].first[E], through locals"""
-    e = strip_casts(e)
-    while e is not None and (e["k"] == "ParenExpr" or (e["k"] == "UnaryOperator" and e.get("op") in ("&", "*"))):
-        e = strip_casts(kids(e)[0])
-    if e is None or depth > 4:
-        return None
-    sa = seq_access(e) if e["k"] in ("ArraySubscriptExpr", "CXXOperatorCallExpr") else None
-    if sa:
-        return sa
-    d = ref_of(e)
-    if d is not None:
-        for v in fn.nodes():
-            if v["k"] == "VarDecl" and v.get("did") == d and kids(v) and kids(v)[0] is not None:
-                return resolve_elem(fn, kids(v)[0], depth + 1)
-    return None
-
-
-def check_edge_scans(ck, fn, tag):
-    """an edge scan keeps, in a pointer local V, the extreme of the elements at the border: V = &begin_seqs[i].first[E] in a
-    loop.  E of the form x - 1 is the left edge (maximum wanted), otherwise the right edge (minimum wanted).  The loop body
-    is explored as a decision table over {V is null, comp(candidate, *V), comp(*V, candidate), other tests}."""
-    scans = {}
-    for z in fn.nodes():
-        b = match.binop(z, ("=",)) if z["k"] == "BinaryOperator" else None
-        if not b:
-            continue
-        lhs = strip_casts(b[1])
-        if lhs["k"] != "DeclRefExpr" or "*" not in (lhs.get("ty") or ""):
-            continue
-        el = resolve_elem(fn, b[2])
-        if el is None:
-            continue
-        loops = [a_ for a_ in ancestors(fn, z) if a_["k"] in ("ForStmt", "WhileStmt")]
-        if not loops:
-            continue
-        scans.setdefault((lhs["ref"]["id"], loops[0]["id"]), dict(var=lhs["ref"], loop=loops[0], assigns=[], elems=[]))
-        scans[(lhs["ref"]["id"], loops[0]["id"])]["assigns"].append(z)
-        scans[(lhs["ref"]["id"], loops[0]["id"])]["elems"].append(el)
-    nbad = 0
-    for (V, _), sc in scans.items():
-        name = sc["var"]["name"]
-        forms = {bool(match.binop(strip_casts(E), ("-",)) and const_int(match.binop(strip_casts(E), ("-",))[2]) == 1) for X, E in sc["elems"]}
-        if len(forms) != 1:
-            raise dtable.Undecidable("%s: scan for %s takes candidates from both edges" % (fn.loc, name))
-        want_max = forms.pop()
-        body = match.loop_parts(sc["loop"])[3]
-
-        def atomize(n, run, V=V):
-            n0 = strip_casts(n)
-            pt = match.ptr_truth(n)
-            if pt is None and n0 is not n:
-                pt = match.ptr_truth(n0)
-            if pt is not None and ref_of(pt) == V:
-                return ("null", True)
-            if n0["k"] == "DeclRefExpr" and n0["ref"]["id"] == V:
-                return ("null", True)
-            bb = match.binop(n0, ("==", "!="))
-            if bb:
-                for l, r in ((bb[1], bb[2]), (bb[2], bb[1])):
-                    if ref_of(l) == V and strip_casts(r)["k"] in ("NullPtr", "CXXNullPtrLiteralExpr", "GNUNullExpr") or (ref_of(l) == V and const_int(r) == 0):
-                        return ("null", bb[0] == "!=")
-            fc = match.functor_call(n0)
-            if fc and len(fc[1]) == 2 and ref_of(fc[0]) is not None:
-                roles = []
-                for a_ in fc[1]:
-                    d_ = match.deref_of(a_)
-                    if d_ is not None and ref_of(d_) == V:
-                        roles.append("cur")
-                    elif resolve_elem(fn, a_) is not None:
-                        roles.append("x")
-                    else:
-                        roles.append("?")
-                if sorted(roles) == ["cur", "x"]:
-                    return ("lt:%s<%s" % tuple(roles), False)
-                if "cur" in roles:
-                    raise dtable.Undecidable("%s: comparison of %s with something that is not an edge element at line %s" % (fn.loc, name, n0.get("l")))
-            if n0["k"] in ("BinaryOperator", "CXXOperatorCallExpr", "UnaryOperator", "ParenExpr") and n0.get("op") in ("&&", "||", "!", None) \
-                    and n0["k"] != "CXXOperatorCallExpr":
-                return None
-            return ("other:" + dtable.describe(n0), False)
-        leaves = dtable.explore(body, atomize, fn)
-        asg_ids = {z["id"] for z in sc["assigns"]}
-
-        def assigned(lf):
-            return any(ev[0] == "expr" and any(y["id"] in asg_ids for y in ir.walk(ev[1])) for ev in lf["events"])
-        atoms = dtable.atoms_of(leaves)
-        others = [a_ for a_ in atoms if a_.startswith("other:")]
-        LX, LC = "lt:x<cur", "lt:cur<x"
-        problem = None
-        # null dereference: a leaf that evaluated a comparison against *V while V is null
-        for lf in leaves:
-            if lf["val"].get("null") is True and any(k.startswith("lt:") for k in lf["val"]):
-                problem = "compares a candidate with *%s while %s is still null" % (name, name)
-        rows = list(dtable.table(leaves, consistent=lambda v: not (v.get(LX) and v.get(LC)), atoms=atoms))
-        import itertools
-        for ov in itertools.product((False, True), repeat=len(others)):
-            sel = [(v, lf) for v, lf in rows if all(v[o] == t for o, t in zip(others, ov))]
-            considered = any(assigned(lf) for v, lf in sel)
-            if not considered or problem:
-                continue
-            for v, lf in sel:
-                A = assigned(lf)
-                if v.get("null"):
-                    if not A:
-                        problem = "does not take the first candidate while %s is null" % name
-                    continue
-                x_lt_cur, cur_lt_x = v.get(LX, None), v.get(LC, None)
-                if LX not in atoms and LC not in atoms:
-                    problem = "replaces %s without comparing" % name if A else problem
-                    continue
-                # with only one direction compared the other outcome is unknown: quantify over it
-                strictly_better = cur_lt_x if want_max else x_lt_cur
-                strictly_worse = x_lt_cur if want_max else cur_lt_x
-                if strictly_worse is True and A:
-                    problem = "replaces %s by a strictly %s element (%s)" % (name, "smaller" if want_max else "larger", dtable.fmt_val(v))
-                if strictly_better is True and not A:
-                    problem = "keeps %s although the candidate is strictly %s (%s)" % (name, "larger" if want_max else "smaller", dtable.fmt_val(v))
-            # one-directional comparisons: comp(x, cur) only tells x < cur; for a maximum scan `!comp(x, cur)` replaces on ties too (allowed)
-        if problem is None and LX in atoms and LC not in atoms:
-            # only comp(x, cur) is asked: for a max scan replace iff !(x < cur); for a min scan replace iff x < cur
-            for v, lf in rows:
-                if v.get("null") or not any(assigned(l2) for v2, l2 in rows if all(v2[o] == v[o] for o in others)):
-                    continue
-                if assigned(lf) != ((not v[LX]) if want_max else v[LX]):
-                    problem = "keeps the wrong extreme (%s)" % dtable.fmt_val(v)
-        if problem is None and LC in atoms and LX not in atoms:
-            for v, lf in rows:
-                if v.get("null") or not any(assigned(l2) for v2, l2 in rows if all(v2[o] == v[o] for o in others)):
-                    continue
-                if assigned(lf) != (v[LC] if want_max else (not v[LC])):
-                    problem = "keeps the wrong extreme (%s)" % dtable.fmt_val(v)
-        if problem:
-            ck.violation("EDGE-TIEBREAK", fn.qname, "%s:%s" % (tag, name), "the scan for %s (%s of the %s edge) %s"
-                         % (name, "maximum" if want_max else "minimum", "left" if want_max else "right", problem), fn.nloc(sc["assigns"][0]))
-            nbad += 1
-    return len(scans), nbad
+_CMP = ("<", ">", "<=", ">=")
+_MIRROR = {"<": ">", ">": "<", "<=": ">=", ">=": "<="}
+_CASTS = ("ImplicitCastExpr", "CStyleCastExpr", "CXXStaticCastExpr", "CXXFunctionalCastExpr", "CXXReinterpretCastExpr", "CXXConstCastExpr",
+          "ParenExpr", "ExprWithCleanups", "MaterializeTemporaryExpr", "CXXBindTemporaryExpr", "ConstantExpr")
 
 
 def ancestors(fn, node):
@@ -395,151 +33,1433 @@ def ancestors(fn, node):
     return out
 
 
-def check_pq_and_edges(ck, fn, tag, is_partition):
-    # priority queues: skew > 0 -> smallest right candidate first (lexicographic_rev as max-heap comparator), fed from b[];
-    #                  skew < 0 -> largest left element first (lexicographic), fed from a[] - 1
+def unconditional(stmt):
+    """nodes of stmt that are evaluated whenever stmt is: not the branches of an if, loop bodies, arms of ?:, right
+    operands of && and ||"""
+    stack = [stmt]
+    while stack:
+        x = stack.pop()
+        if x is None:
+            continue
+        yield x
+        k = x["k"]
+        if k == "IfStmt":
+            stack.append(kids(x)[0])
+            if isinstance(x.get("init"), dict):
+                stack.append(x["init"])
+        elif k in ("WhileStmt", "ForStmt", "DoStmt", "CXXForRangeStmt", "SwitchStmt", "CXXTryStmt", "LambdaExpr"):
+            if k == "ForStmt":
+                stack.append(kids(x)[0])
+        elif k == "ConditionalOperator":
+            stack.append(kids(x)[0])
+        elif k == "BinaryOperator" and x.get("op") in ("&&", "||"):
+            stack.append(kids(x)[0])
+        else:
+            stack.extend(reversed(kids(x)))
+
+
+# ------------------------------------------------------------------------------------------------ lexicographic functors
+def _param_role(fn, e, depth=0):
+    """1 / 2 if e denotes the first / second parameter of fn, directly or through never-reassigned (reference) locals"""
+    d = ref_of(e)
+    if d is None or depth > 4:
+        return None
+    if d == fn.params[0]["did"]:
+        return 1
+    if d == fn.params[1]["did"]:
+        return 2
+    decl = [v for v in fn.nodes() if v["k"] == "VarDecl" and v.get("did") == d]
+    if len(decl) != 1 or not kids(decl[0]) or kids(decl[0])[0] is None:
+        return None
+    for z in fn.nodes():
+        w = match.binop(z, ("=",)) if z["k"] in ("BinaryOperator", "CXXOperatorCallExpr") else None
+        if w and ref_of(w[1]) == d:
+            return None
+    return _param_role(fn, match.strip_conv(kids(decl[0])[0]), depth + 1)
+
+
+def _lexi_class_of_call(fn, n):
+    """('lexicographic' | 'lexicographic_rev') if n calls the operator() of one of the two functors on a temporary / object that
+    carries this functor's own comparator and has the same template arguments"""
+    n = strip_casts(n)
+    c = n.get("callee") if n is not None else None
+    if not c or n.get("op") != "()" or len(kids(n)) != 3:
+        return None
+    base = (c.get("record") or "").split("::")[-1]
+    if base not in ("lexicographic", "lexicographic_rev") or c.get("rtargs") != fn.rtargs:
+        return None
+    if (c.get("record") or "").rsplit("::", 1)[0] != (fn.record or "").rsplit("::", 1)[0]:
+        return None
+    if match.this_field(match.strip_conv(kids(n)[0])) != "comp_":
+        return None
+    ctors = [f for f in fn.tu.functions if f.kind == "ctor" and f.record == c.get("record") and f.rtargs == fn.rtargs and len(f.params) == 1]
+    if len(ctors) != 1 or len(ctors[0].inits) != 1 or ctors[0].inits[0].get("field") != "comp_" or \
+            ref_of(ctors[0].inits[0].get("e")) != ctors[0].params[0]["did"]:
+        return None
+    return base
+
+
+def lexi_one(ck, fn, cls, rev):
+    def first_role(a):
+        f = match.field_of(a)
+        return _param_role(fn, f[0]) if f and f[1] == "first" else None
+
+    def atomize(n, run):
+        fc = match.functor_call(n)
+        if fc and match.this_field(fc[0]) == "comp_" and len(fc[1]) == 2:
+            w = [first_role(a) for a in fc[1]]
+            if w == [1, 2]:
+                return ("c12", False)
+            if w == [2, 1]:
+                return ("c21", False)
+            if w in ([1, 1], [2, 2]):
+                return False        # comp(x, x): a strict order is irreflexive
+            raise dtable.Undecidable("%s: comp_ is applied to something other than p1.first / p2.first at line %s" % (fn.loc, strip_casts(n).get("l")))
+        b = match.binop(n, _CMP)
+        if b:
+            fa, fb = match.field_of(b[1]), match.field_of(b[2])
+            if fa and fb and fa[1] == fb[1] == "second":
+                ra, rb = _param_role(fn, fa[0]), _param_role(fn, fb[0])
+                if sorted((ra or 0, rb or 0)) == [1, 2]:
+                    op = b[0] if (ra, rb) == (1, 2) else _MIRROR[b[0]]
+                    # p1.second <= p2.second  is  !(p2.second < p1.second)
+                    return {"<": ("s12", False), ">": ("s21", False), "<=": ("s21", True), ">=": ("s12", True)}[op]
+        dc = _lexi_class_of_call(fn, n) if fc and len(fc[1]) == 2 else None
+        if dc:
+            w = [_param_role(fn, a) for a in fc[1]]
+            if sorted((w[0] or 0, w[1] or 0)) == [1, 2]:
+                lt12 = (w == [1, 2]) == (dc == "lexicographic")       # the call asks (p1, p2) < in the ascending order
+                if lt12:
+                    return run.atom("c12") or (not run.atom("c21") and run.atom("s12"))
+                return run.atom("c21") or (not run.atom("c12") and run.atom("s21"))
+        return None
+    leaves = dtable.explore(fn.body, atomize, fn)
+    atoms = ["c12", "c21", "s12", "s21"]
+    bad = None
+    rows = 0
+    for v, lf in dtable.table(leaves, lambda v: not (v["c12"] and v["c21"]) and not (v["s12"] and v["s21"]), atoms):
+        rows += 1
+        if lf["stop"][0] != "return" or lf["stop"][1][0] is None:
+            raise dtable.Undecidable("%s: a path of %s::operator() does not end in `return <bool>` (%s)" % (fn.loc, cls, dtable.fmt_val(v)))
+        r2 = dtable.Run(atomize, v, fn)
+        r2.env = dict(lf["run"].env)
+        try:
+            r = r2.truth(lf["stop"][1][0])
+        except dtable._Need as nd:
+            raise dtable.Undecidable("%s: the value returned by %s::operator() depends on %s" % (fn.loc, cls, nd.key))
+        lt = v["c12"] or (not v["c12"] and not v["c21"] and v["s12"])
+        gt = v["c21"] or (not v["c12"] and not v["c21"] and v["s21"])
+        want = gt if rev else lt
+        if (lt or gt) and r != want:
+            bad = v
+    tag = "%s (%s)" % (cls, fn.record.split("::")[1])
+    if bad:
+        ck.violation("LEXI-TABLE", fn.qname, tag.replace(" ", ""), "%s is not the %s lexicographic order on (value, sequence): wrong for %s" % (cls, "reversed" if rev else "strict", dtable.fmt_val(bad)), fn.loc)
+    else:
+        ck.ok("LEXI-TABLE", tag, "%d rows: %s (value, sequence index) order" % (rows, "reversed strict" if rev else "strict"))
+
+
+def check_lexi(ck, tu):
+    for cls, rev in (("lexicographic", False), ("lexicographic_rev", True)):
+        fns = [f for f in tu.functions if f.kind == "operator" and f.record and f.record.endswith("::" + cls) and f.d.get("op") == "()"]
+        ck.require(fns, "%s::operator() not instantiated" % cls)
+        for fn in fns:
+            ck.require(len(fn.params) == 2, "%s: two parameters expected" % fn.loc)
+            ck.guarded(lambda fn=fn, cls=cls, rev=rev: lexi_one(ck, fn, cls, rev))
+
+
+# ------------------------------------------------------------------------------------------------ per-function context
+class Cx:
+    """one instantiation of multisequence_partition / multisequence_selection"""
+
+    def __init__(self, fn):
+        self.fn = fn
+        if len(fn.params) < 5:
+            raise ir.AnalysisBroken("%s: public signature (begin_seqs, end_seqs, rank, out, comp) expected" % fn.loc)
+        self.g = cfgm.CFG(fn)
+        self.L = linear.Lin(fn, self.g)
+        self.seqs = fn.params[0]["did"]
+        self.rank = fn.params[2]["did"]
+        self._seqlen = None
+        self._scans = None
+
+    # -- locals ----------------------------------------------------------------------------------
+    def unalias(self, e, use, depth=0):
+        """the initialiser instead of a local (value or reference) that is initialised once, never written, and whose
+        operands do not change between its declaration and `use`"""
+        e0 = strip_casts(e)
+        while e0 is not None and depth < 5:
+            d = ref_of(e0)
+            v = self.L.decls.get(d) if d is not None else None
+            if v is None or not kids(v) or kids(v)[0] is None or d in self.L.writes or not self.L.stable(v, use):
+                break
+            e0 = strip_casts(kids(v)[0])
+            depth += 1
+        return e0
+
+    def leaf_refs(self, e, depth=0, linear_only=False):
+        """declaration ids an expression depends on, never-written initialised locals replaced by what they stand for
+        (linear_only: only the locals the linear engine would replace - integer locals with a linear initialiser)"""
+        out = set()
+        for y in ir.walk(e):
+            if y["k"] != "DeclRefExpr":
+                continue
+            d = y["ref"]["id"]
+            v = self.L.decls.get(d)
+            if v is not None and kids(v) and kids(v)[0] is not None and d not in self.L.writes and depth < 4 and \
+                    (not linear_only or self.L._linear_init(kids(v)[0])):
+                out |= self.leaf_refs(kids(v)[0], depth + 1, linear_only)
+                if linear_only:
+                    out.add(d)
+            else:
+                out.add(d)
+        return out
+
+    def arrays_in(self, e, depth=0):
+        """declaration ids of the local containers subscripted inside e (through never-written locals)"""
+        out = set()
+        for y in ir.walk(e):
+            ip = match.index_parts(y) if y["k"] in ("ArraySubscriptExpr", "CXXOperatorCallExpr", "CXXMemberCallExpr") else None
+            if ip and ref_of(ip[0]) in self.L.decls:
+                out.add(ref_of(ip[0]))
+            if y["k"] == "DeclRefExpr" and depth < 4:
+                v = self.L.decls.get(y["ref"]["id"])
+                if v is not None and kids(v) and kids(v)[0] is not None and y["ref"]["id"] not in self.L.writes:
+                    out |= self.arrays_in(kids(v)[0], depth + 1)
+        return out
+
+    def name(self, did):
+        v = self.L.decls.get(did)
+        return v.get("name") if v is not None else "?"
+
+    # -- element accesses --------------------------------------------------------------------------
+    def seq_access(self, n):
+        """(seq_index_expr, element_index_expr) if n is begin_seqs[X].first[E]"""
+        p = match.index_parts(n)
+        if not p:
+            return None
+        f = match.field_of(p[0])
+        if not f or f[1] != "first":
+            return None
+        q = match.index_parts(self.unalias(f[0], n))
+        if not q or ref_of(self.unalias(q[0], n)) != self.seqs:
+            return None
+        return q[1], p[1]
+
+    def inline_value(self, n):
+        """the expression a call of a local lambda stands for when its body is `decl* (if (c) return e;)* return e;` (parameters
+        replaced by the arguments; captured variables keep their declarations); None otherwise"""
+        n = strip_casts(n)
+        if n is None or "callee" not in n or n.get("op") != "()":
+            return None
+        callee = self.fn.tu.by_did.get(n["callee"].get("did"))
+        if callee is None or callee.kind != "lambda" or callee.body is None or len(kids(n)) - 1 != len(callee.params):
+            return None
+        return dtable.stmts_as_expr([s_ for s_ in kids(callee.body) if s_ is not None], {p_["did"]: a_ for p_, a_ in zip(callee.params, kids(n)[1:])})
+
+    def is_access(self, n, depth=0):
+        if n["k"] not in ("ArraySubscriptExpr", "CXXOperatorCallExpr", "CXXMemberCallExpr"):
+            return None
+        sa = self.seq_access(n)
+        if sa is None and n.get("op") == "()" and depth < 3:
+            sub = strip_casts(self.inline_value(n))
+            if sub is not None:
+                return self.is_access(sub, depth + 1)
+        return sa
+
+    def resolve_elem(self, e, depth=0):
+        """(X, E) if e denotes (the address of / a reference or pointer to) begin_seqs[X].first[E], through locals"""
+        e = strip_casts(e)
+        while e is not None and (e["k"] == "ParenExpr" or (e["k"] == "UnaryOperator" and e.get("op") in ("&", "*"))):
+            e = strip_casts(kids(e)[0])
+        if e is None or depth > 4:
+            return None
+        sa = self.is_access(e)
+        if sa:
+            return sa
+        d = ref_of(e)
+        v = self.L.decls.get(d) if d is not None else None
+        if v is not None and kids(v) and kids(v)[0] is not None and d not in self.L.writes:
+            return self.resolve_elem(kids(v)[0], depth + 1)
+        return None
+
+    # -- the table of sequence lengths -------------------------------------------------------------
+    def _is_length_of(self, e, idx):
+        e = match.strip_conv(e)
+        ends = None
+        c = match.call_named(e, ("distance",))
+        if c is not None and "callee" in e and len(kids(c)) == 2:
+            ends = kids(c)
+        else:
+            b = match.binop(e, ("-",))
+            if b:
+                ends = [b[2], b[1]]
+        if not ends:
+            return False
+        for end, member in zip(ends, ("first", "second")):
+            f = match.field_of(match.strip_conv(end))
+            q = match.index_parts(f[0]) if f and f[1] == member else None
+            if not q or ref_of(q[0]) != self.seqs:
+                return False
+            if not (match.same_expr(q[1], idx) or (const_int(q[1]) is not None and const_int(q[1]) == const_int(idx))):
+                return False
+        return True
+
+    def seqlen(self):
+        """(declaration id, a subscript node to copy): the local container S with S[k] = distance(begin_seqs[k].first,
+        begin_seqs[k].second) (or .second - .first)"""
+        if self._seqlen is None:
+            cands = {}
+            for z in self.fn.nodes():
+                b = match.binop(z, ("=",)) if z["k"] in ("BinaryOperator", "CXXOperatorCallExpr") else None
+                ip = match.index_parts(b[1]) if b else None
+                d = ref_of(ip[0]) if ip else None
+                if d in self.L.decls and self._is_length_of(b[2], ip[1]):
+                    cands.setdefault(d, strip_casts(b[1]))
+            if len(cands) != 1:
+                raise dtable.Undecidable("%s: the table of sequence lengths (S[k] = distance(begin_seqs[k].first, begin_seqs[k].second)) "
+                                         "was not recognised (%d candidates)" % (self.fn.loc, len(cands)))
+            self._seqlen = list(cands.items())[0]
+        return self._seqlen
+
+    def seqlen_did(self):
+        try:
+            return self.seqlen()[0]
+        except dtable.Undecidable:
+            return None
+
+    def seqlen_at(self, X):
+        """a node that reads as seqlen[X]"""
+        d, tmpl = self.seqlen()
+        n = dict(tmpl)
+        n["ch"] = [kids(tmpl)[0], X]
+        n["id"] = -31
+        n.pop("cval", None)
+        return n
+
+    # -- closed world for a missing bound -----------------------------------------------------------
+    def unread_guard(self, x, what, names):
+        """A bound that is not established on some path to x is only reported when every branch that dominates x is either
+        read by the linear engine (an integer inequality) or cannot concern the index: a bool flag, a project helper or
+        lambda, an == / != / truth test or another call over the index operands may carry the test in a form this rule
+        cannot read."""
+        fn, g, L = self.fn, self.g, self.L
+        px = g.pos_deep(x)
+        names = set(names) | ({self.seqlen_did()} - {None})
+
+        def parts(c):
+            c = strip_casts(c)
+            while c is not None and (c["k"] == "ParenExpr" or (c["k"] == "UnaryOperator" and c.get("op") == "!")):
+                c = strip_casts(kids(c)[0])
+            if c is not None and c["k"] == "BinaryOperator" and c.get("op") in ("&&", "||"):
+                return parts(kids(c)[0]) + parts(kids(c)[1])
+            return [c] if c is not None else []
+        for bid, blk in g.blocks.items():
+            els = g.elements(bid)
+            if len(blk.get("succ", [])) != 2 or not els or not isinstance(els[-1], int) or blk.get("term") is None:
+                continue
+            c = fn.byid(els[-1])
+            if c is None or px is None or not g.dominates((bid, len(els) - 1), px):
+                continue
+            for c0 in parts(c):
+                if match.binop(c0, _CMP) and L.atom(c0, True) is not None:
+                    continue            # read
+                is_flag = c0["k"] == "DeclRefExpr" and (c0.get("ty") or "").replace("const ", "") == "bool"
+                is_helper = "callee" in c0 and fn.tu.by_did.get(c0["callee"].get("did")) is not None
+                fc = match.functor_call(c0)
+                if fc and not is_helper and all(self.resolve_elem(a) is not None or match.deref_of(a) is not None for a in fc[1]):
+                    continue            # a comparator over element values
+                concerns = bool(self.leaf_refs(c0) & names)
+                if is_flag or is_helper or concerns:
+                    raise dtable.Undecidable("%s: %s may be established by %s (line %s), which this rule cannot read"
+                                             % (fn.loc, what, dtable.describe(c0), c0.get("l")))
+
+
+def writes_to(n):
+    """declaration id written by node n (assignment / compound assignment / ++ / --), and the index parts if an element"""
+    w = match.unop(n, ("++", "--")) or (match.binop(n, ("=", "+=", "-=", "*=", "/=", "%=", ">>=", "<<=", "&=", "|=", "^="))
+                                        if n["k"] in ("BinaryOperator", "CompoundAssignOperator", "CXXOperatorCallExpr") else None)
+    if not w:
+        return None, None
+    ip = match.index_parts(w[1])
+    return (ref_of(ip[0]) if ip else ref_of(w[1])), ip
+
+
+def _lin_sub(fa, fb, extra=0):
+    """canonical form of fa - fb + extra"""
+    terms = dict(fa[0])
+    for t, k in fb[0].items():
+        terms[t] = terms.get(t, 0) - k
+    return linear.canon({t: k for t, k in terms.items() if k}, fa[1] - fb[1] + extra)
+
+
+def elem_add(cx, z):
+    """(array declaration id, index parts, linear form of K, text of K) if z adds K to an element of a local container:
+    A[i] += K | A[i] = A[i] + K | A[i] = K + A[i]   (K with non-negative coefficients only)"""
+    L = cx.L
+    if z["k"] == "CompoundAssignOperator" and z.get("op") == "+=":
+        d, ip = writes_to(z)
+        if d is None or not ip:
+            return None
+        f = L.form(kids(z)[1], z)
+        return (d, ip, f, dtable.describe(kids(z)[1])) if f is not None else None
+    b = match.binop(z, ("=",)) if z["k"] == "BinaryOperator" else None
+    ip = match.index_parts(b[1]) if b else None
+    if not ip or ref_of(ip[0]) not in L.decls:
+        return None
+    rhs = match.strip_conv(b[2])
+    if not (rhs["k"] == "BinaryOperator" and rhs.get("op") in ("+", "-")):
+        return None
+    fr, fl = L.form(rhs, z), L.form(b[1], z)
+    if fr is None or fl is None or len(fl[0]) != 1:
+        return None
+    k = dict(fr[0])
+    (t, _), = fl[0].items()
+    if k.get(t) != 1:
+        return None
+    del k[t]
+    if any(c < 0 for c in k.values()) or fr[1] < 0 or (not k and fr[1] == 0):
+        return None
+    return ref_of(ip[0]), ip, (k, fr[1]), linear.show((k, fr[1]))
+
+
+# ------------------------------------------------------------------------------------------------ INDEX-GUARD & co.
+def check_index_guards(ck, cx, tag):
+    """INDEX-GUARD: every begin_seqs[X].first[E] is reached only over branch edges that establish the needed bound
+    (E < seqlen[X], or E' > 0 for E = E' - 1), as canonical linear inequalities, with no write to the index in between
+    (must-fact over the CFG: early `continue`, negated tests and || chains count like nested ifs).
+    GUARD-EXACT: one of those edges is exactly the bound - a stronger test skips a candidate that exists.
+    LEFT-BORDER-BOUND: a left border that is still zero is moved by K only under exactly K <= seqlen."""
+    fn, g, L = cx.fn, cx.g, cx.L
+    left_arrays = set()
+    unread = []         # a site that cannot be read is remembered; it does not hide what another site shows
+
+    def one_access(x, X, E):
+        """-> True if a violation was reported for this access"""
+        f = L.form(E, x)
+        if f is None:
+            raise dtable.Undecidable("%s: index of %s is not a linear expression" % (fn.loc, dtable.describe(x)))
+        if not f[0] and f[1] == 0:
+            return False        # element 0 of a non-empty sequence (precondition)
+        lower = bool(f[0]) and f[1] < 0          # E = E' - c: the element below a border, needs E >= 0
+        if lower:
+            left_arrays.update(cx.arrays_in(E))
+            need = linear.canon({t: k for t, k in f[0].items() if k}, f[1])
+        else:
+            need = L.req(cx.seqlen_at(X), E, True, use=x)
+        if need is None:
+            raise dtable.Undecidable("%s: bound of %s is not a linear expression" % (fn.loc, dtable.describe(x)))
+        names = cx.leaf_refs(E, linear_only=True) | cx.leaf_refs(X, linear_only=True)
+
+        def effect(n):
+            d, ip = writes_to(n)
+            if d is None or d not in names:
+                return None
+            if ip and not any(match.same_expr(ip[1], q[1]) for y in ir.walk(E) for q in [match.index_parts(y)] if q and ref_of(q[0]) == d):
+                return None         # another element of the array
+            return "kill"
+        safe = mustfact.MustFact(fn, g, lambda c, t: any(linear.implies(a_, need) for a_ in L.implied(c, t)), effect)
+        st = safe.before(x)
+        if st is None:
+            raise dtable.Undecidable("%s: %s has no position in the control-flow graph" % (fn.loc, dtable.describe(x)))
+        if st is not True:
+            cx.unread_guard(x, "the bound of %s" % dtable.describe(x), names)
+            # positive: a path to x on which every dominating branch was read and none establishes the bound (or the index is
+            # written after the test)
+            ck.violation("INDEX-GUARD", fn.qname, "%s:%s" % (tag, dtable.describe(x)),
+                         "%s is read on a path without a test that the index is inside the sequence (needs %s >= 0)"
+                         % (dtable.describe(x), linear.show(need)), fn.nloc(x))
+            return True
+        exact = mustfact.MustFact(fn, g, lambda c, t: any(linear.same(a_, need) for a_ in L.implied(c, t)), effect)
+        if exact.before(x) is not True:
+            # positive: every path passes an edge that implies the bound, and on one of them none is the bound itself
+            ck.violation("GUARD-EXACT", fn.qname, "%s:%s" % (tag, dtable.describe(x)),
+                         "%s is only reached under a test that is stronger than `the element exists` (%s >= 0): an existing candidate is skipped"
+                         % (dtable.describe(x), linear.show(need)), fn.nloc(x))
+            return True
+        return False
+    n_acc = 0
+    bad = 0
+    for x in fn.nodes():
+        sa = cx.is_access(x)
+        if not sa:
+            continue
+        n_acc += 1
+        try:
+            bad += 1 if one_access(x, sa[0], sa[1]) else 0
+        except ir.AnalysisBroken as e:
+            unread.append(e)
+    if not bad and not unread:
+        ck.ok("INDEX-GUARD", tag, "%d element accesses, each reached only over edges that establish index < seqlen[...] (or index-1 with index > 0)" % n_acc)
+        ck.ok("GUARD-EXACT", tag, "for each of them one guarding edge is exactly the existence of the element (canonical linear form)")
+
+    # left borders moved while still zero
+    def one_move(z, d, ip, Kf, Ktxt):
+        pz = g.pos_deep(z)
+        if pz is None:
+            raise dtable.Undecidable("%s: %s has no position in the control-flow graph" % (fn.loc, dtable.describe(z)[:40]))
+        earlier = [w for w in L.writes.get(d, []) if w is not z and g.pos_deep(w) is not None and g.reachable(g.pos_deep(w), pz)
+                   and not (g.reachable(pz, g.pos_deep(w)) and g.dominates(pz, g.pos_deep(w)))]
+        if any(not (match.binop(w, ("=",)) and const_int(match.binop(w, ("=",))[2]) == 0) for w in earlier):
+            return 0            # not known to be zero here: nothing to decide
+        fs = L.form(cx.seqlen_at(ip[1]), z)
+        if fs is None:
+            raise dtable.Undecidable("%s: no linear form for the length of the sequence whose left border moves at line %s" % (fn.loc, z.get("l")))
+        need = _lin_sub(fs, Kf)
+        names = cx.leaf_refs(kids(z)[1], linear_only=True) | cx.leaf_refs(ip[1], linear_only=True)
+        names.discard(d)
+
+        def effect2(n):
+            d2, ip2 = writes_to(n)
+            return "kill" if d2 is not None and d2 in names and n is not z and not ip2 else None
+        sf = mustfact.MustFact(fn, g, lambda c, t: any(linear.implies(a_, need) for a_ in L.implied(c, t)), effect2)
+        ex = mustfact.MustFact(fn, g, lambda c, t: any(linear.same(a_, need) for a_ in L.implied(c, t)), effect2)
+        sig = "%s:%s" % (tag, dtable.describe(z)[:40])
+        if sf.before(z) is not True:
+            cx.unread_guard(z, "the bound of %s" % dtable.describe(z)[:40], names)
+            ck.violation("LEFT-BORDER-BOUND", fn.qname, sig,
+                         "the left border is moved by %s without a test that the sequence is that long (needs %s >= 0): the border leaves the sequence"
+                         % (Ktxt, linear.show(need)), fn.nloc(z))
+        elif ex.before(z) is not True:
+            ck.violation("LEFT-BORDER-BOUND", fn.qname, sig,
+                         "the left border is moved by %s only under a test stronger than `the sequence is that long` (%s >= 0): a sequence of exactly "
+                         "that length keeps its border at zero" % (Ktxt, linear.show(need)), fn.nloc(z))
+        else:
+            ck.ok("LEFT-BORDER-BOUND", "%s @%s" % (tag, fn.nloc(z)), "a zero left border moves by K exactly when K <= seqlen")
+        return 1
+    n_lb = 0
+    for z in fn.nodes():
+        ea = elem_add(cx, z) if z["k"] in ("CompoundAssignOperator", "BinaryOperator") else None
+        if not ea or ea[0] not in left_arrays:
+            continue
+        try:
+            n_lb += one_move(z, *ea)
+        except ir.AnalysisBroken as e:
+            unread.append(e)
+    if unread:
+        raise unread[0]
+    return n_lb
+
+
+# ------------------------------------------------------------------------------------------------ edge scans
+def find_scans(cx):
+    """an edge scan keeps, in a pointer local V, the extreme of the elements at the border: V = &begin_seqs[i].first[E] in a
+    loop.  E of the form x - c is the left edge (maximum wanted), otherwise the right edge (minimum wanted)."""
+    if cx._scans is not None:
+        return cx._scans
+    fn = cx.fn
+    scans = {}
+    for z in fn.nodes():
+        b = match.binop(z, ("=",)) if z["k"] == "BinaryOperator" else None
+        if not b:
+            continue
+        lhs = strip_casts(b[1])
+        if lhs["k"] != "DeclRefExpr" or "*" not in (lhs.get("ty") or ""):
+            continue
+        el = cx.resolve_elem(b[2])
+        if el is None:
+            continue
+        loops = [a_ for a_ in ancestors(fn, z) if a_["k"] in ("ForStmt", "WhileStmt", "DoStmt")]
+        if not loops:
+            continue
+        sc = scans.setdefault((lhs["ref"]["id"], loops[0]["id"]), dict(V=lhs["ref"]["id"], var=lhs["ref"], loop=loops[0], assigns=[], elems=[]))
+        sc["assigns"].append(z)
+        sc["elems"].append(el)
+    out = []
+    for sc in scans.values():
+        forms = set()
+        arrays = set()
+        for (X, E), z in zip(sc["elems"], sc["assigns"]):
+            f = cx.L.form(E, z)
+            if f is None:
+                raise dtable.Undecidable("%s: candidate index of the scan for %s is not linear" % (fn.loc, sc["var"]["name"]))
+            forms.add(bool(f[0]) and f[1] < 0)
+            arrays |= cx.arrays_in(E)
+        if len(forms) != 1:
+            raise dtable.Undecidable("%s: scan for %s takes candidates from both edges" % (fn.loc, sc["var"]["name"]))
+        sc["want_max"] = forms.pop()
+        sc["array"] = list(arrays)[0] if len(arrays) == 1 else None
+        out.append(sc)
+    cx._scans = out
+    return out
+
+
+def null_atom(n, V):
+    """("null", negated) if n tests the pointer local V against null"""
+    n0 = strip_casts(n)
+    pt = match.ptr_truth(n)
+    if pt is None and n0 is not n:
+        pt = match.ptr_truth(n0)
+    if pt is not None and ref_of(pt) == V:
+        return ("null", True)
+    if n0["k"] == "DeclRefExpr" and n0["ref"]["id"] == V:
+        return ("null", True)
+    bb = match.binop(n0, ("==", "!="))
+    if bb:
+        for l, r in ((bb[1], bb[2]), (bb[2], bb[1])):
+            if ref_of(l) == V and (strip_casts(r)["k"] in ("NullPtr", "CXXNullPtrLiteralExpr", "GNUNullExpr") or const_int(r) == 0):
+                return ("null", bb[0] == "!=")
+    return None
+
+
+def other_atom(cx, n0, nodes_of):
+    """canonical key of a test the table does not interpret: integer inequalities by their linear form (so a > 0, 0 < a,
+    !(a <= 0), a >= 1 are one atom), anything else by its text"""
+    if match.binop(n0, _CMP):
+        at, af = cx.L.atom(n0, True), cx.L.atom(n0, False)
+        if at is not None and af is not None:
+            kt, kf = "other:" + linear.show(at) + " >= 0", "other:" + linear.show(af) + " >= 0"
+            key, neg = (kt, False) if kt <= kf else (kf, True)
+            nodes_of.setdefault(key, n0)
+            return key, neg
+    key = "other:" + dtable.describe(n0)
+    nodes_of.setdefault(key, n0)
+    return key, False
+
+
+def _compound(n0):
+    return n0["k"] in ("BinaryOperator", "UnaryOperator", "ParenExpr") and n0.get("op") in ("&&", "||", "!", None)
+
+
+def opaque_events(cx, lf, what, is_write):
+    """a leaf whose effects hide a decision cannot be judged by its assignments: a relevant write with a ?: inside the same
+    expression, or a project helper / lambda that was not inlined (it may write what it captured)"""
+    for ev in lf["events"]:
+        if ev[0] != "expr":
+            continue
+        ys = list(ir.walk(ev[1]))
+        for y in ys:
+            hidden = False
+            if y["k"] == "ConditionalOperator":
+                # a write inside an arm, or `x = c ? v : x` (a write that is a no-op on one side)
+                hidden = any(is_write(w) for arm in kids(y)[1:] for w in ir.walk(arm))
+                par = cx.fn.parent(y)
+                while par is not None and par["k"] in _CASTS:
+                    par = cx.fn.parent(par)
+                if par is not None and is_write(par) and match.binop(par, ("=",)):
+                    hidden = hidden or any(match.same_expr(arm, match.binop(par, ("=",))[1]) for arm in kids(y)[1:])
+            helper = y["k"] == "LambdaExpr" or ("callee" in y and y.get("op") not in ("[]", "*", "->") and cx.fn.tu.by_did.get(y["callee"].get("did")) is not None
+                                                and (y["callee"].get("record") or "").split("::")[-1] not in ("lexicographic", "lexicographic_rev"))
+            if helper and "callee" in y:
+                sub = cx.inline_value(y)
+                if sub is not None and not any(writes_to(w)[0] is not None or ("callee" in w and w.get("op") not in ("[]", "*", "->")) for w in ir.walk(sub)):
+                    helper = False      # a lambda that only names a value
+            if hidden or helper:
+                raise dtable.Undecidable("%s: %s: the effect of %s (line %s) is not read by this rule" % (cx.fn.loc, what, dtable.describe(y)[:60], y.get("l")))
+
+
+def check_pointer_uses(cx, sc):
+    """closed world for the scan pointer: inside the loop it is only tested, dereferenced, copied, or assigned a candidate"""
+    fn, V = cx.fn, sc["V"]
+    name = sc["var"]["name"]
+    asg = {z["id"] for z in sc["assigns"]}
+    for y in ir.walk(sc["loop"]):
+        if y["k"] != "DeclRefExpr" or y["ref"]["id"] != V:
+            continue
+        c, p = y, fn.parent(y)
+        while p is not None and p["k"] in _CASTS:
+            c, p = p, fn.parent(p)
+        ok = False
+        if p is None:
+            ok = False
+        elif p["k"] == "UnaryOperator" and p.get("op") in ("!", "*"):
+            ok = True
+        elif p["k"] == "BinaryOperator" and p.get("op") in ("==", "!=", "&&", "||", ","):
+            ok = True
+        elif p["k"] == "BinaryOperator" and p.get("op") == "=":
+            ok = (p["id"] in asg) if kids(p)[0] is c else True
+        elif p["k"] in ("IfStmt", "WhileStmt", "ForStmt", "DoStmt", "ConditionalOperator"):
+            ok = kids(p)[0 if p["k"] != "DoStmt" else 1] is c or (p["k"] == "ForStmt" and kids(p)[1] is c)
+        elif p["k"] == "VarDecl":
+            ok = "&" not in (p.get("ty") or "")
+        elif "callee" in p and p.get("op") == "*":
+            ok = True
+        if not ok:
+            raise dtable.Undecidable("%s: the scan pointer %s is used at line %s in a form this rule does not read (%s)"
+                                     % (fn.loc, name, y.get("l"), dtable.describe(p)[:60] if p is not None else "?"))
+
+
+def eval_scan(cx, sc, tag):
+    """The loop body is explored as a decision table over {V is null, comp(candidate, *V), comp(*V, candidate), other tests}.
+    -> text of the problem or None"""
+    fn = cx.fn
+    V, name, want_max = sc["V"], sc["var"]["name"], sc["want_max"]
+    check_pointer_uses(cx, sc)
+    body = match.loop_parts(sc["loop"])[3]
+    nodes_of = {}
+
+    def atomize(n, run):
+        n0 = strip_casts(n)
+        na = null_atom(n, V)
+        if na:
+            return na
+        fc = match.functor_call(n0)
+        if fc and len(fc[1]) == 2 and ref_of(fc[0]) is not None:
+            roles = []
+            for a_ in fc[1]:
+                d_ = match.deref_of(a_)
+                if d_ is not None and ref_of(d_) == V:
+                    roles.append("cur")
+                elif cx.resolve_elem(a_) is not None:
+                    roles.append("x")
+                else:
+                    roles.append("?")
+            if sorted(roles) == ["cur", "x"]:
+                return ("lt:%s<%s" % tuple(roles), False)
+            if "cur" in roles:
+                raise dtable.Undecidable("%s: comparison of %s with something that is not an edge element at line %s" % (fn.loc, name, n0.get("l")))
+        if _compound(n0) or n0["k"] == "ConditionalOperator" or n0["k"] == "CXXBoolLiteralExpr":
+            return None
+        if n0["k"] == "DeclRefExpr" and (n0.get("ty") or "").replace("const ", "") == "bool":
+            return None             # a flag: its defining expression (or a flag atom) is used by the interpreter
+        return other_atom(cx, n0, nodes_of)
+    leaves = dtable.explore(body, atomize, fn)
+    asg_ids = {z["id"] for z in sc["assigns"]}
+
+    def assigned(lf):
+        return any(ev[0] == "expr" and any(y["id"] in asg_ids for y in ir.walk(ev[1])) for ev in lf["events"])
+    for lf in leaves:
+        opaque_events(cx, lf, "scan for %s" % name, lambda w: writes_to(w)[0] == V)
+    atoms = dtable.atoms_of(leaves)
+    others = [a_ for a_ in atoms if a_.startswith("other:") or a_.startswith("flag:")]
+    LX, LC = "lt:x<cur", "lt:cur<x"
+    problem = None
+    # null dereference: a leaf that evaluated a comparison against *V while V is null
+    for lf in leaves:
+        if lf["val"].get("null") is True and any(k.startswith("lt:") for k in lf["val"]):
+            problem = "compares a candidate with *%s while %s is still null" % (name, name)
+    rows = list(dtable.table(leaves, consistent=lambda v: not (v.get(LX) and v.get(LC)), atoms=atoms))
+    for ov in itertools.product((False, True), repeat=len(others)):
+        sel = [(v, lf) for v, lf in rows if all(v[o] == t for o, t in zip(others, ov))]
+        considered = any(assigned(lf) for v, lf in sel)
+        if not considered or problem:
+            continue
+        for v, lf in sel:
+            A = assigned(lf)
+            if v.get("null"):
+                if not A:
+                    problem = "does not take the first candidate while %s is null" % name
+                continue
+            x_lt_cur, cur_lt_x = v.get(LX, None), v.get(LC, None)
+            if LX not in atoms and LC not in atoms:
+                problem = "replaces %s without comparing" % name if A else problem
+                continue
+            # with only one direction compared the other outcome is unknown: quantify over it
+            strictly_better = cur_lt_x if want_max else x_lt_cur
+            strictly_worse = x_lt_cur if want_max else cur_lt_x
+            if strictly_worse is True and A:
+                problem = "replaces %s by a strictly %s element (%s)" % (name, "smaller" if want_max else "larger", dtable.fmt_val(v))
+            if strictly_better is True and not A:
+                problem = "keeps %s although the candidate is strictly %s (%s)" % (name, "larger" if want_max else "smaller", dtable.fmt_val(v))
+    if problem is None and LX in atoms and LC not in atoms:
+        # only comp(x, cur) is asked: for a max scan replace iff !(x < cur); for a min scan replace iff x < cur
+        for v, lf in rows:
+            if v.get("null") or not any(assigned(l2) for v2, l2 in rows if all(v2[o] == v[o] for o in others)):
+                continue
+            if assigned(lf) != ((not v[LX]) if want_max else v[LX]):
+                problem = "keeps the wrong extreme (%s)" % dtable.fmt_val(v)
+    if problem is None and LC in atoms and LX not in atoms:
+        for v, lf in rows:
+            if v.get("null") or not any(assigned(l2) for v2, l2 in rows if all(v2[o] == v[o] for o in others)):
+                continue
+            if assigned(lf) != (v[LC] if want_max else (not v[LC])):
+                problem = "keeps the wrong extreme (%s)" % dtable.fmt_val(v)
+    if problem:
+        # the verdict stands only if every test the replacement depends on is one this rule reads: the null test, the
+        # comparator, and tests over the candidate's own index operands (its guard)
+        allowed = {cx.seqlen_did(), cx.seqs}
+        for X, E in sc["elems"]:
+            allowed |= cx.leaf_refs(X) | cx.leaf_refs(E)
+        unread = unread_relevant(cx, rows, atoms, others, nodes_of, allowed, assigned)
+        if unread:
+            raise dtable.Undecidable("%s: whether %s is replaced depends on `%s`, which this rule cannot read (otherwise: %s)"
+                                     % (fn.loc, name, unread[len("other:"):] if unread.startswith("other:") else unread, problem))
+    return problem
+
+
+def unread_relevant(cx, rows, atoms, others, nodes_of, allowed, outcome):
+    """an uninterpreted atom on which the outcome depends and which is not a test over the allowed operands"""
+    index = {tuple(v[a_] for a_ in atoms): lf for v, lf in rows}
+    for o in others:
+        oi = atoms.index(o)
+        dep = False
+        for key, lf in index.items():
+            k2 = key[:oi] + (not key[oi],) + key[oi + 1:]
+            if k2 in index and outcome(index[k2]) != outcome(lf):
+                dep = True
+                break
+        if not dep:
+            continue
+        node = nodes_of.get(o)
+        if node is None or not (cx.leaf_refs(node) <= allowed) or any("callee" in y and y.get("op") not in ("[]", "*") for y in ir.walk(node)):
+            return o
+    return None
+
+
+def check_edge_scans(ck, cx, tag):
+    fn = cx.fn
+    scans = find_scans(cx)
+    nbad = 0
+    unread = []
+    for sc in scans:
+        try:
+            problem = eval_scan(cx, sc, tag)
+        except ir.AnalysisBroken as e:      # one scan that cannot be read does not hide what another one shows
+            unread.append(e)
+            continue
+        if problem:
+            name, want_max = sc["var"]["name"], sc["want_max"]
+            ck.violation("EDGE-TIEBREAK", fn.qname, "%s:%s" % (tag, name), "the scan for %s (%s of the %s edge) %s"
+                         % (name, "maximum" if want_max else "minimum", "left" if want_max else "right", problem), fn.nloc(sc["assigns"][0]))
+            nbad += 1
+    if unread:
+        raise unread[0]
+    ck.require(len(scans) >= 3, "%s: edge scans not found" % fn.loc)
+    if not nbad:
+        ck.ok("EDGE-TIEBREAK", tag, "%d edge scans keep the maximum of the left edge / minimum of the right edge, decided on the "
+              "truth table of each scan body (first candidate taken, replaced iff strictly better in the kept direction, ties free)" % len(scans))
+
+
+def border_arrays(cx):
+    """(left border array, right border array): the containers the maximum-of-the-left-edge / minimum-of-the-right-edge scans
+    index their candidates with"""
+    scans = find_scans(cx)
+    A = {sc["array"] for sc in scans if sc["want_max"]}
+    B = {sc["array"] for sc in scans if not sc["want_max"]}
+    if len(A) != 1 or len(B) != 1 or None in A or None in B or A == B:
+        raise dtable.Undecidable("%s: the border arrays cannot be told from the edge scans" % cx.fn.loc)
+    return A.pop(), B.pop()
+
+
+# ------------------------------------------------------------------------------------------------ priority queues
+def _rank_sign(cx, e, sign=1):
+    """+1 / -1 if e is a sum in which exactly one summand grows with the rank parameter and it enters with that sign"""
+    found = []
+
+    def has_rank(n):
+        return any(y["k"] == "DeclRefExpr" and y["ref"]["id"] == cx.rank for y in ir.walk(n))
+
+    def flat(n, s):
+        n = match.strip_conv(n)
+        while n is not None and n["k"] in _CASTS and kids(n):
+            n = match.strip_conv(kids(n)[0])
+        if n is None:
+            return
+        if n["k"] == "BinaryOperator" and n.get("op") in ("+", "-"):
+            flat(kids(n)[0], s)
+            flat(kids(n)[1], s if n["op"] == "+" else -s)
+        elif n["k"] == "UnaryOperator" and n.get("op") in ("-", "+"):
+            flat(kids(n)[0], -s if n["op"] == "-" else s)
+        elif n["k"] == "BinaryOperator" and n.get("op") == "/" and has_rank(kids(n)[0]) and not has_rank(kids(n)[1]):
+            flat(kids(n)[0], s)
+        elif ref_of(n) == cx.rank:
+            found.append(s)
+        elif has_rank(n):
+            found.append(None)
+    flat(e, sign)
+    return found[0] if len(found) == 1 else None
+
+
+def find_skew(cx, pqs):
+    """the local that is defined once from the rank parameter (rank / step - left size) and whose sign tests dominate both
+    queues -> (declaration, {queue id: True if the left side is too small there})"""
+    fn, g, L = cx.fn, cx.g, cx.L
+    defs = {}
+    for v in fn.nodes():
+        if v["k"] == "VarDecl" and v.get("did") is not None and kids(v) and kids(v)[0] is not None:
+            defs.setdefault(v["did"], []).append(kids(v)[0])
+        b = match.binop(v, ("=",)) if v["k"] == "BinaryOperator" else None
+        if b and strip_casts(b[1])["k"] == "DeclRefExpr":
+            d_ = ref_of(b[1])
+            if any(y["k"] == "DeclRefExpr" and y["ref"]["id"] == d_ for y in ir.walk(b[2])):
+                continue            # x = x - 1: a step (kills the sign facts like --x), not a definition
+            defs.setdefault(d_, []).append(b[2])
+    zero = {"k": "IntegerLiteral", "id": -22, "val": 0, "ty": "int"}
+    found = []
+    for did, es in defs.items():
+        decl = L.decls.get(did)
+        if decl is None or len(es) != 1:
+            continue
+        sgn = _rank_sign(cx, es[0])
+        if sgn is None:
+            continue
+        ref = {"k": "DeclRefExpr", "id": -21, "ref": {"id": did, "name": decl.get("name"), "kind": "local"}, "ty": decl.get("ty")}
+        need = {"gt": L.req(ref, zero, True), "ge": L.req(ref, zero, False), "lt": L.req(zero, ref, True), "le": L.req(zero, ref, False)}
+
+        def writes_it(n, did=did):
+            d_, ip_ = writes_to(n)
+            return "kill" if d_ == did else None
+
+        def ne_edge(c, t, did=did, need=need):
+            c0 = strip_casts(c)
+            while c0 is not None and (c0["k"] == "ParenExpr" or (c0["k"] == "UnaryOperator" and c0.get("op") == "!")):
+                if c0["k"] == "UnaryOperator":
+                    t = not t
+                c0 = strip_casts(kids(c0)[0])
+            b_ = match.binop(c0, ("==", "!="))
+            if b_ and ((ref_of(b_[1]) == did and const_int(b_[2]) == 0) or (ref_of(b_[2]) == did and const_int(b_[1]) == 0)):
+                return (b_[0] == "!=") == t
+            if c0 is not None and ref_of(c0) == did:
+                return t            # `if (skew)`
+            return any(linear.implies(a_, need["gt"]) or linear.implies(a_, need["lt"]) for a_ in L.implied(c, t))
+        facts = {k_: mustfact.MustFact(fn, g, lambda c, t, k_=k_, need=need: any(linear.implies(a_, need[k_]) for a_ in L.implied(c, t)), writes_it)
+                 for k_ in need}
+        facts["ne"] = mustfact.MustFact(fn, g, ne_edge, writes_it)
+        res = {}
+        for pq in pqs:
+            at = lambda k_: facts[k_].before(pq) is True
+            if at("gt") or (at("ge") and at("ne")):
+                res[pq["id"]] = sgn > 0
+            elif at("lt") or (at("le") and at("ne")):
+                res[pq["id"]] = sgn < 0
+        if len(res) == len(pqs):
+            found.append((decl, res))
+    ck_msg = "%s: the skew (a local defined from the rank parameter whose sign decides both priority queues) was not recognised" % fn.loc
+    if len(found) != 1:
+        raise dtable.Undecidable(ck_msg + " (%d candidates)" % len(found))
+    return found[0]
+
+
+def check_pq(ck, cx, tag):
+    """priority queues: skew > 0 -> smallest right candidate first (lexicographic_rev as max-heap comparator), fed from the
+    right border; skew < 0 -> largest left element first (lexicographic), fed from the left border - 1"""
+    fn = cx.fn
     pqs = [x for x in fn.nodes() if x["k"] == "VarDecl" and x.get("ty", "").startswith("std::priority_queue<")]
     ck.require(len(pqs) == 2, "%s: two priority queues expected" % fn.loc)
-    bad = 0
-    g = cfgm.CFG(fn)
-    L = linear.Lin(fn, g)
-    skews = [v for v in fn.nodes() if v["k"] == "VarDecl" and v.get("name") == "skew"]
-    ck.require(len(skews) == 1, "%s: skew variable not found" % fn.loc)
-    skew_ref = {"k": "DeclRefExpr", "id": -21, "ref": {"id": skews[0]["did"], "name": "skew", "kind": "local"}, "ty": skews[0].get("ty")}
-    zero = {"k": "IntegerLiteral", "id": -22, "val": 0, "ty": "int"}
-    need = {"gt": L.req(skew_ref, zero, True), "ge": L.req(skew_ref, zero, False), "lt": L.req(zero, skew_ref, True), "le": L.req(zero, skew_ref, False)}
+    skew, orient = find_skew(cx, pqs)
+    try:
+        (A, B), ab_err = border_arrays(cx), None
+    except ir.AnalysisBroken as e:
+        (A, B), ab_err = (None, None), e
 
-    def writes_skew(n):
-        d_, ip_ = writes_to(n)
-        return "kill" if d_ == skews[0]["did"] else None
-
-    def ne_edge(c, t):
-        c0 = strip_casts(c)
-        while c0 is not None and (c0["k"] == "ParenExpr" or (c0["k"] == "UnaryOperator" and c0.get("op") == "!")):
-            if c0["k"] == "UnaryOperator":
-                t = not t
-            c0 = strip_casts(kids(c0)[0])
-        b_ = match.binop(c0, ("==", "!="))
-        if b_ and ((ref_of(b_[1]) == skews[0]["did"] and const_int(b_[2]) == 0) or (ref_of(b_[2]) == skews[0]["did"] and const_int(b_[1]) == 0)):
-            return (b_[0] == "!=") == t
-        return any(linear.implies(a_, need["gt"]) or linear.implies(a_, need["lt"]) for a_ in L.implied(c, t))
-    facts = {k_: mustfact.MustFact(fn, g, lambda c, t, k_=k_: any(linear.implies(a_, need[k_]) for a_ in L.implied(c, t)), writes_skew) for k_ in need}
-    facts["ne"] = mustfact.MustFact(fn, g, ne_edge, writes_skew)
-    for pq in pqs:
-        at = lambda k_: facts[k_].before(pq) is True
-        if at("gt") or (at("ge") and at("ne")):
-            skew_pos = True
-        elif at("lt") or (at("le") and at("ne")):
-            skew_pos = False
-        else:
-            skew_pos = None
-        ck.require(skew_pos is not None, "%s: priority queue outside the skew correction" % fn.loc)
+    def one_pq(pq):
+        skew_pos = orient[pq["id"]]
         par = fn.parent(pq)
         while par is not None and par["k"] != "CompoundStmt":
             par = fn.parent(par)
-        block_body = par
-        rev = "lexicographic_rev<" in pq["ty"]
-        pushes = [y for y in ir.walk(block_body) if "callee" in y and y["callee"]["name"] == "push" and ref_of(kids(y)[0]) == pq["did"]]
-        src = set()
-        for y in pushes:
-            for z in ir.walk(y):
-                sa = seq_access(z) if z["k"] in ("ArraySubscriptExpr", "CXXOperatorCallExpr") else None
-                if sa:
-                    e = strip_casts(sa[1])
-                    p = match.index_parts(e)
-                    sb = match.binop(e, ("-",))
-                    if p:
-                        src.add(ir.ref_name(p[0]))
-                    elif sb and match.index_parts(sb[1]):
-                        src.add(ir.ref_name(match.index_parts(sb[1])[0]) + "-1")
-        want_rev, want_src = (True, {"b"}) if skew_pos else (False, {"a-1"})
-        if rev != want_rev or src != want_src:
+        if "lexicographic_rev<" in pq["ty"]:
+            rev = True
+        elif "lexicographic<" in pq["ty"]:
+            rev = False
+        else:
+            raise dtable.Undecidable("%s: comparator type of the priority queue at line %s is not one of the two lexicographic functors" % (fn.loc, pq.get("l")))
+        want_rev = bool(skew_pos)
+
+        def show_src(s):
+            return sorted((cx.name(d) if d is not None else "the %s border" % ("left" if low else "right")) + ("-1" if low else "") for d, low in s)
+
+        def report(src_txt):
             ck.violation("PQ-ORIENT", fn.qname, "%s:skew%s" % (tag, ">0" if skew_pos else "<0"),
                          "when the left side is too %s the queue must deliver the %s candidate first (comparator %s) and be fed from %s; found %s fed from %s"
                          % ("small" if skew_pos else "large", "smallest right" if skew_pos else "largest left", "lexicographic_rev" if want_rev else "lexicographic",
-                            sorted(want_src), "lexicographic_rev" if rev else "lexicographic", sorted(src)), fn.nloc(pq))
-            bad += 1
+                            show_src({(B, False)} if skew_pos else {(A, True)}), "lexicographic_rev" if rev else "lexicographic", src_txt), fn.nloc(pq))
+            return True
+        try:
+            if ab_err is not None:
+                raise ab_err
+            src = pq_sources(pq, par)
+        except ir.AnalysisBroken:
+            if rev != want_rev:
+                return report("a source this rule cannot read")      # the comparator alone is positive evidence
+            raise
+        want_src = {(B, False)} if skew_pos else {(A, True)}
+        if rev != want_rev or src != want_src:
+            # positive: the comparator is a concrete type, every pushed element is a recognised border element
+            return report(show_src(src))
+        return False
+
+    def pq_sources(pq, par):
+        feeds = []
+        for y in ir.walk(par):
+            if y["k"] != "DeclRefExpr" or y["ref"]["id"] != pq["did"]:
+                continue
+            p = fn.parent(y)
+            while p is not None and p["k"] in _CASTS:
+                p = fn.parent(p)
+            if p is None or not p.get("member_call") or strip_casts(kids(p)[0]) is not y:
+                raise dtable.Undecidable("%s: the priority queue is handed to %s (line %s), which this rule cannot read"
+                                         % (fn.loc, dtable.describe(p)[:50] if p is not None else "?", y.get("l")))
+            nm = p["callee"]["name"]
+            if nm in ("push", "emplace"):
+                feeds.append(p)
+            elif nm not in ("top", "pop", "empty", "size"):
+                raise dtable.Undecidable("%s: priority_queue::%s (line %s) is not a member this rule reads" % (fn.loc, nm, p.get("l")))
+        if not feeds:
+            raise dtable.Undecidable("%s: nothing is pushed into the priority queue declared at line %s" % (fn.loc, pq.get("l")))
+        src = set()
+        for y in feeds:
+            els = [cx.is_access(z) for a_ in kids(y)[1:] for z in ir.walk(a_)]
+            els = [e_ for e_ in els if e_]
+            if not els:
+                # the element through a reference / pointer local: emplace(cand, i) or push(pair(cand, i))
+                args = list(kids(y)[1:])
+                if len(args) == 1:
+                    args = pair_parts(cx, args[0], y) or args
+                els = [e_ for e_ in (cx.resolve_elem(a_) for a_ in args) if e_]
+            if len(els) != 1:
+                raise dtable.Undecidable("%s: cannot see which element is pushed at line %s" % (fn.loc, y.get("l")))
+            f = cx.L.form(els[0][1], y)
+            arrs = cx.arrays_in(els[0][1])
+            if f is None or len(arrs) != 1:
+                raise dtable.Undecidable("%s: index of the element pushed at line %s is not a border +- constant" % (fn.loc, y.get("l")))
+            src.add((list(arrs)[0], bool(f[0]) and f[1] < 0))
+        return src
+    bad = 0
+    unread = []
+    for pq in pqs:
+        try:
+            bad += 1 if one_pq(pq) else 0
+        except ir.AnalysisBroken as e:      # a queue that cannot be read does not hide what the other one shows
+            unread.append(e)
+    if unread:
+        raise unread[0]
     if not bad:
         ck.ok("PQ-ORIENT", tag, "skew > 0: min-first queue over b[]; skew < 0: max-first queue over a[] - 1")
-    # edge scans: max of the left edge, min of the right edge
-    n_scans, bad = check_edge_scans(ck, fn, tag)
-    ck.require(n_scans >= 3, "%s: edge scans not found" % fn.loc)
-    if not bad:
-        ck.ok("EDGE-TIEBREAK", tag, "%d edge scans keep the maximum of the left edge / minimum of the right edge, decided on the "
-              "truth table of each scan body (first candidate taken, replaced iff strictly better in the kept direction, ties free)" % n_scans)
-    # middle decision (partition only): lexicographic on (element, sequence)
-    if is_partition:
-        mids = [x for x in fn.nodes() if x["k"] == "IfStmt" and any(ir.ref_name(y) == "middle" for y in ir.walk(kids(x)[0]) if y["k"] == "DeclRefExpr")]
-        ck.require(len(mids) == 1, "%s: refinement decision not found" % fn.loc)
-        c = kids(mids[0])[0]
-        lex = [y for y in ir.walk(c) if "callee" in y and y.get("op") == "()" and kids(y) and ir.ref_name(kids(y)[0]) == "lcomp"]
-        okk = False
-        if len(lex) == 1 and len(kids(lex[0])) == 3:
-            a, b = kids(lex[0])[1], kids(lex[0])[2]
 
-            def pair_parts(e):
-                e = match.strip_conv(e)
-                if e["k"] in ("CXXConstructExpr", "CXXTemporaryObjectExpr") and len(kids(e)) == 2:
-                    return kids(e)
-                c2 = match.call_named(e, ("make_pair",))
-                if c2 is not None and "callee" in e:
-                    return kids(c2)
-                e2 = strip_casts(e)
-                while e2["k"] in ("CXXFunctionalCastExpr",):
-                    e2 = strip_casts(kids(e2)[0])
-                if e2["k"] in ("CXXConstructExpr", "CXXTemporaryObjectExpr") and len(kids(e2)) == 2:
-                    return kids(e2)
-                return None
-            pa, pb = pair_parts(a), pair_parts(b)
-            if pa and pb:
-                sa = seq_access(strip_casts(pa[0]))
-                d = match.deref_of(pb[0])
-                okk = bool(sa and ir.ref_name(sa[1]) == "middle" and match.same_expr(sa[0], pa[1]) and d is not None and ref_of(d) is not None
-                           and "*" in (strip_casts(d).get("ty") or "") and ref_of(pb[1]) is not None)
-                # lmax_seq is set wherever lmax is set: in the same basic block, to the sequence index of the element taken
-                g_ = cfgm.CFG(fn)
-                lvar, svar = ref_of(d), ref_of(pb[1])
-                sets_l = [y for y in fn.nodes() if y["k"] == "BinaryOperator" and match.binop(y, ("=",)) and ref_of(match.binop(y, ("=",))[1]) == lvar]
-                sets_s = [y for y in fn.nodes() if y["k"] == "BinaryOperator" and match.binop(y, ("=",)) and ref_of(match.binop(y, ("=",))[1]) == svar]
-                paired = bool(sets_l)
-                for y in sets_l:
-                    el = resolve_elem(fn, match.binop(y, ("=",))[2])
-                    mates = [z for z in sets_s if g_.pos_deep(z) is not None and g_.pos_deep(y) is not None and g_.pos_deep(z)[0] == g_.pos_deep(y)[0]]
-                    if el is None or not mates or not any(match.same_expr(match.binop(z, ("=",))[2], el[0]) for z in mates):
-                        paired = False
-                okk = okk and paired
-        if okk:
-            ck.ok("MIDDLE-LEXI", tag, "an element goes left iff (element, sequence) < (left maximum, its sequence) lexicographically")
+
+# ------------------------------------------------------------------------------------------------ middle decision
+def pair_parts(cx, e, use):
+    """(first, second) of a std::pair built in place: pair(a, b), make_pair(a, b), or a never-written local so initialised"""
+    e = cx.unalias(match.strip_conv(e), use)
+    e = match.strip_conv(e)
+    for _ in range(3):
+        if e is None:
+            return None
+        if e["k"] in ("CXXConstructExpr", "CXXTemporaryObjectExpr") and len(kids(e)) == 2 and "pair" in (e.get("ty") or ""):
+            return kids(e)
+        c2 = match.call_named(e, ("make_pair",))
+        if c2 is not None and "callee" in e and len(kids(c2)) == 2:
+            return kids(c2)
+        if e["k"] in _CASTS and kids(e):
+            e = match.strip_conv(kids(e)[0])
         else:
+            return None
+    return None
+
+
+def check_middle(ck, cx, tag):
+    """MIDDLE-LEXI (partition only): in the refinement loop the probe element of sequence i moves the left border iff
+    (probe, i) < (left maximum, its sequence) lexicographically.  The loop body is a decision table over {left maximum is
+    null, pair comparison / key comparisons, sequence-index comparison, other tests}; the variable that carries the sequence
+    of the left maximum must be set together with the maximum in its scan."""
+    fn, L = cx.fn, cx.L
+    A, B = border_arrays(cx)
+    maxscans = {sc["V"]: sc for sc in find_scans(cx) if sc["want_max"]}
+    sites = []
+    for y in fn.nodes():
+        fc = match.functor_call(y)
+        if not fc or len(fc[1]) != 2:
+            continue
+        args = []
+        for a_ in fc[1]:
+            args += list(pair_parts(cx, a_, y) or [a_])
+        for V, sc in maxscans.items():
+            derefs = [z for a_ in args for z in ir.walk(a_) if match.deref_of(z) is not None and ref_of(match.deref_of(z)) == V]
+            if derefs and not any(a_ is sc["loop"] for a_ in ancestors(fn, y)):
+                sites.append((y, V))
+    # only the outermost call of a nest counts
+    sites = [(y, V) for y, V in sites if not any(y2 is not y and any(z is y for z in ir.walk(y2)) for y2, _ in sites)]
+    if not sites:
+        raise dtable.Undecidable("%s: refinement decision (a comparison of a probe element with the maximum of the left edge) not found" % fn.loc)
+    Vs = {V for _, V in sites}
+    loops = {([a_ for a_ in ancestors(fn, y) if a_["k"] in ("ForStmt", "WhileStmt", "DoStmt")] or [{"id": None}])[0]["id"] for y, _ in sites}
+    if len(Vs) != 1 or len(loops) != 1 or None in loops:
+        raise dtable.Undecidable("%s: the comparisons with the left maximum are spread over several loops / maxima" % fn.loc)
+    V = Vs.pop()
+    sc = maxscans[V]
+    vname = sc["var"]["name"]
+    loop = [a_ for a_ in ancestors(fn, sites[0][0]) if a_["id"] in loops][0]
+    body = match.loop_parts(loop)[3]
+    nodes_of = {}
+    info = dict(S=set(), probe=[], mismatch=None)
+    for y, _ in sites:
+        for a_ in match.functor_call(y)[1]:
+            pp = pair_parts(cx, a_, y)
+            el = cx.resolve_elem((pp or [a_])[0]) if match.deref_of((pp or [a_])[0]) is None else None
+            if el is not None:
+                info["probe"].append(el)
+
+    def seq_role(e, use):
+        """'x' if e is the sequence index of a probe seen so far, 'cur' if it is a local (candidate for the sequence of the maximum)"""
+        for X, E in info["probe"]:
+            fa, fb = L.form(e, use), L.form(X, use)
+            if match.same_expr(e, X) or (fa is not None and fa == fb):
+                return "x", None
+        d = ref_of(cx.unalias(e, use)) if ref_of(e) is not None else None
+        if d is not None and d in L.decls:
+            return "cur", d
+        return "?", None
+
+    def atomize(n, run):
+        n0 = strip_casts(n)
+        na = null_atom(n, V)
+        if na:
+            return na
+        fc = match.functor_call(n0)
+        if fc and len(fc[1]) == 2:
+            cls = ("callee" in n0 and (n0["callee"].get("record") or "").split("::")[-1]) or ""
+            if cls in ("lexicographic", "lexicographic_rev"):
+                roles = []
+                for a_ in fc[1]:
+                    pp = pair_parts(cx, a_, n0)
+                    if not pp:
+                        raise dtable.Undecidable("%s: argument of the pair comparison at line %s is not a pair built in place" % (fn.loc, n0.get("l")))
+                    el = cx.resolve_elem(pp[0]) if match.deref_of(pp[0]) is None else None
+                    d_ = match.deref_of(pp[0])
+                    if d_ is not None and ref_of(d_) == V:
+                        roles.append(("cur", pp[1]))
+                    elif el is not None:
+                        info["probe"].append(el)
+                        roles.append(("x", pp[1], el))
+                    else:
+                        raise dtable.Undecidable("%s: the pair compared at line %s holds neither a sequence element nor *%s" % (fn.loc, n0.get("l"), vname))
+                if sorted(r[0] for r in roles) != ["cur", "x"]:
+                    raise dtable.Undecidable("%s: the pair comparison at line %s does not compare a probe with *%s" % (fn.loc, n0.get("l"), vname))
+                for r in roles:
+                    kind, d_ = seq_role(r[1], n0)
+                    if r[0] == "x" and kind != "x":
+                        # positive only if the partner is recognisably something else: a variable the scan for the maximum sets
+                        if kind == "cur" and any(any(a2 is sc["loop"] for a2 in ancestors(fn, w)) for w in L.writes.get(d_, [])):
+                            info["mismatch"] = "the probe element of sequence %s is paired with `%s`" % (dtable.describe(r[2][0]), dtable.describe(r[1]))
+                        else:
+                            raise dtable.Undecidable("%s: cannot tell whether `%s` is the sequence of the probe element at line %s"
+                                                     % (fn.loc, dtable.describe(r[1]), n0.get("l")))
+                    elif r[0] == "cur" and kind == "x":
+                        info["mismatch"] = "the left maximum *%s is paired with `%s`, the sequence of the probe element" % (vname, dtable.describe(r[1]))
+                    elif r[0] == "cur" and kind != "cur":
+                        raise dtable.Undecidable("%s: cannot tell what `%s` is paired with *%s at line %s" % (fn.loc, dtable.describe(r[1]), vname, n0.get("l")))
+                    elif r[0] == "cur":
+                        info["S"].add(d_)
+                x_first = roles[0][0] == "x"
+                return ("P:x<cur", False) if x_first == (cls == "lexicographic") else ("P:cur<x", False)
+            if ref_of(fc[0]) is not None:
+                roles = []
+                for a_ in fc[1]:
+                    d_ = match.deref_of(a_)
+                    if d_ is not None and ref_of(d_) == V:
+                        roles.append("cur")
+                    elif d_ is None and cx.resolve_elem(a_) is not None:
+                        info["probe"].append(cx.resolve_elem(a_))
+                        roles.append("x")
+                    else:
+                        roles.append("?")
+                if sorted(roles) == ["cur", "x"]:
+                    return ("K:%s<%s" % tuple(roles), False)
+                if "cur" in roles:
+                    raise dtable.Undecidable("%s: comparison of *%s with something that is not a sequence element at line %s" % (fn.loc, vname, n0.get("l")))
+        b = match.binop(n0, _CMP)
+        if b and info["probe"]:
+            ra, rb = seq_role(b[1], n0), seq_role(b[2], n0)
+            if sorted((ra[0], rb[0])) == ["cur", "x"]:
+                info["S"].add(ra[1] if ra[0] == "cur" else rb[1])
+                op = b[0] if ra[0] == "x" else _MIRROR[b[0]]
+                return {"<": ("S:x<cur", False), ">": ("S:cur<x", False), "<=": ("S:cur<x", True), ">=": ("S:x<cur", True)}[op]
+        if _compound(n0) or n0["k"] in ("ConditionalOperator", "CXXBoolLiteralExpr"):
+            return None
+        if n0["k"] == "DeclRefExpr" and (n0.get("ty") or "").replace("const ", "") == "bool":
+            return None
+        return other_atom(cx, n0, nodes_of)
+    leaves = dtable.explore(body, atomize, fn)
+    for lf in leaves:
+        opaque_events(cx, lf, "refinement decision", lambda w: writes_to(w)[0] in (A, B))
+
+    def went_left(lf):
+        return any(ev[0] == "expr" and any(writes_to(y)[0] == A and writes_to(y)[1] for y in ir.walk(ev[1])) for ev in lf["events"])
+    atoms = dtable.atoms_of(leaves)
+    has_p = any(a_.startswith("P:") for a_ in atoms)
+    has_k = any(a_.startswith("K:") or a_.startswith("S:") for a_ in atoms)
+    if has_p == has_k:
+        raise dtable.Undecidable("%s: the refinement decision mixes pair and key comparisons (or has neither)" % fn.loc)
+    if has_k:
+        atoms += [a_ for a_ in ("K:x<cur", "K:cur<x", "S:x<cur") if a_ not in atoms]
+    others = [a_ for a_ in atoms if a_.startswith("other:") or a_.startswith("flag:")]
+
+    def consistent(v):
+        return not (v.get("P:x<cur") and v.get("P:cur<x")) and not (v.get("K:x<cur") and v.get("K:cur<x")) and not (v.get("S:x<cur") and v.get("S:cur<x"))
+
+    def lexi_less(v):
+        if has_p:
+            return v.get("P:x<cur") if "P:x<cur" in v else None
+        return v["K:x<cur"] or (not v["K:cur<x"] and v["S:x<cur"])
+    rows = list(dtable.table(leaves, consistent=consistent, atoms=atoms))
+    problem = None
+    any_left = False
+    for ov in itertools.product((False, True), repeat=len(others)):
+        sel = [(v, lf) for v, lf in rows if all(v[o] == t for o, t in zip(others, ov)) and not v.get("null")]
+        if not any(went_left(lf) for v, lf in sel):
+            continue
+        any_left = True
+        for v, lf in sel:
+            want = lexi_less(v)
+            if want is None:
+                # only (cur, x) is asked of the pair order: x < cur is then unknown when cur < x is false
+                want = False if v.get("P:cur<x") else None
+            if want is not None and went_left(lf) != want and problem is None:
+                problem = v
+    if not any_left:
+        raise dtable.Undecidable("%s: no path of the refinement loop raises the left border" % fn.loc)
+    c = sites[0][0]
+    if problem is not None or info["mismatch"]:
+        allowed = {cx.seqlen_did(), cx.seqs, A, B}
+        for X, E in info["probe"]:
+            allowed |= cx.leaf_refs(X) | cx.leaf_refs(E)
+        unread = unread_relevant(cx, rows, atoms, others, nodes_of, allowed, went_left) if problem is not None else None
+        if unread:
+            raise dtable.Undecidable("%s: whether the left border is raised depends on `%s`, which this rule cannot read" % (fn.loc, unread))
+        if info["mismatch"]:
+            ck.violation("MIDDLE-LEXI", fn.qname, tag, "the refinement does not compare (element, its sequence) with (left maximum, its sequence): %s"
+                         % info["mismatch"], fn.nloc(c))
+        elif has_k and not any(a_.startswith("S:") for a_ in dtable.atoms_of(leaves)):
             ck.violation("MIDDLE-LEXI", fn.qname, tag, "the refinement compares the probe element with the left maximum by key only: equal elements are split "
                          "without regard to their sequence index (unstable partition)", fn.nloc(c))
+        else:
+            ck.violation("MIDDLE-LEXI", fn.qname, tag, "the refinement does not move an element left exactly when (element, sequence) < (left maximum, its "
+                         "sequence): wrong for %s" % dtable.fmt_val({k_: t for k_, t in problem.items() if not k_.startswith("other:")}), fn.nloc(c))
+        return
+    # the sequence of the left maximum is set wherever the maximum is set
+    if len(info["S"]) != 1:
+        raise dtable.Undecidable("%s: the variable that holds the sequence of the left maximum is not unique" % fn.loc)
+    S = info["S"].pop()
+    stale = pairing_problem(cx, sc, S)
+    if stale:
+        ck.violation("MIDDLE-LEXI", fn.qname, tag, "the refinement compares the probe element with the left maximum by key only: equal elements are split "
+                     "without regard to their sequence index (unstable partition) - %s" % stale, fn.nloc(c))
+        return
+    ck.ok("MIDDLE-LEXI", tag, "an element goes left iff (element, sequence) < (left maximum, its sequence) lexicographically")
 
 
-from rules.parcommon import check_comp_threaded  # noqa: E402
+def pairing_problem(cx, sc, S):
+    """every assignment V = &begin_seqs[X].first[..] of the scan is accompanied by S = X among the statements that are
+    executed unconditionally with it up to the end of the iteration (or directly before it).  -> text if for one of them
+    nothing sets S at all on that way (positive), None if all are accompanied; Undecidable if S is only set under a condition
+    of its own, to something else, or in a form this rule does not read"""
+    fn, L = cx.fn, cx.L
+    sname, vname = cx.name(S), sc["var"]["name"]
+    for w in L.writes.get(S, []):
+        inside = any(a_ is sc["loop"] for a_ in ancestors(fn, w))
+        if not inside or not (w["k"] == "BinaryOperator" and w.get("op") == "="):
+            raise dtable.Undecidable("%s: %s is written at line %s %s" % (fn.loc, sname, w.get("l"), "in a form this rule does not read" if inside
+                                                                     else "outside the scan that sets %s" % vname))
+
+    def sets_s(stmt, X, use):
+        """True: stmt always sets S = X; None: it may write S (conditionally / another value); False: it does not touch S"""
+        hit = False
+        for y in unconditional(stmt):
+            b = match.binop(y, ("=",)) if y["k"] == "BinaryOperator" else None
+            if b and ref_of(b[1]) == S:
+                fa, fb = L.form(b[2], y), L.form(X, use)
+                if match.same_expr(b[2], X) or (fa is not None and fa == fb):
+                    hit = True
+                else:
+                    return None
+        if hit:
+            return True
+        return None if any(writes_to(y)[0] == S for y in ir.walk(stmt)) else False
+
+    def jumps(stmt):
+        return any(y["k"] in ("BreakStmt", "ContinueStmt", "ReturnStmt", "GotoStmt", "CXXThrowExpr") for y in unconditional(stmt))
+    for z, (X, E) in zip(sc["assigns"], sc["elems"]):
+        # the statement that holds z, then what follows it on the way out of the nest
+        st = z
+        while fn.parent(st) is not None and fn.parent(st)["k"] not in ("CompoundStmt", "IfStmt", "WhileStmt", "ForStmt", "DoStmt"):
+            st = fn.parent(st)
+        if not any(y is z for y in unconditional(st)):
+            raise dtable.Undecidable("%s: %s is assigned inside a conditional expression at line %s" % (fn.loc, vname, z.get("l")))
+        run_ = [st]
+        before = []
+        node, first, done = st, True, False
+        while not done:
+            par = fn.parent(node)
+            if par is None or par is sc["loop"]:
+                break
+            if par["k"] == "CompoundStmt":
+                sibs = kids(par)
+                i = [j for j, s_ in enumerate(sibs) if s_ is node][0]
+                if first:
+                    for s_ in reversed(sibs[:i]):
+                        if s_ is None or s_["k"] in ("IfStmt", "WhileStmt", "ForStmt", "DoStmt", "SwitchStmt") and sets_s(s_, X, z) is False:
+                            break
+                        before.append(s_)
+                    first = False
+                for s_ in sibs[i + 1:]:
+                    if s_ is None:
+                        continue
+                    run_.append(s_)
+                    if jumps(s_):
+                        done = True
+                        break
+            elif par["k"] in ("WhileStmt", "ForStmt", "DoStmt"):
+                raise dtable.Undecidable("%s: %s is assigned inside a nested loop at line %s" % (fn.loc, vname, z.get("l")))
+            else:
+                first = False
+            node = par
+        def same_flag(s_):
+            """s_ is `if (f) S = X;` and z sits in the then-branch of an `if (f)` of its own, f a bool local that is never written"""
+            if s_["k"] != "IfStmt" or len(kids(s_)) > 2 and kids(s_)[2] is not None:
+                return False
+            f = ref_of(kids(s_)[0])
+            v = L.decls.get(f) if f is not None else None
+            if v is None or f in L.writes or (v.get("ty") or "").replace("const ", "") != "bool" or sets_s(kids(s_)[1], X, z) is not True:
+                return False
+            for a_ in ancestors(fn, z):
+                if a_ is sc["loop"]:
+                    break
+                if a_["k"] == "IfStmt" and ref_of(kids(a_)[0]) == f and any(y is z for y in ir.walk(kids(a_)[1])):
+                    return True
+            return False
+        verdict = False
+        for s_ in run_ + before:
+            r = sets_s(s_, X, z)
+            if r is None and same_flag(s_):
+                r = True
+            if r is True:
+                verdict = True
+                break
+            if r is None:
+                verdict = None
+                break
+        if verdict is None:
+            raise dtable.Undecidable("%s: cannot tell whether %s is set together with %s at line %s" % (fn.loc, sname, vname, z.get("l")))
+        if verdict is False:
+            return "%s is replaced at line %s but %s keeps the sequence of the previous maximum until the end of the iteration" % (vname, z.get("l"), sname)
+    return None
 
 
-def check_signed_tests(ck, fn, tag):
-    """a local whose sign is tested (x < 0, x > 0 with both outcomes handled) must have a signed type in every instantiation"""
+from rules.parcommon import comparator_sources, STD_ORDER_ALGOS  # noqa: E402
+
+
+# number of arguments of the overloads without a comparator
+_PLAIN_ARITY = {"lower_bound": 3, "upper_bound": 3, "equal_range": 3, "binary_search": 3, "sort": 2, "stable_sort": 2, "partial_sort": 3,
+                "nth_element": 3, "merge": 5, "inplace_merge": 3, "min_element": 2, "max_element": 2, "minmax_element": 2, "is_sorted": 2,
+                "includes": 4, "push_heap": 2, "pop_heap": 2, "make_heap": 2, "sort_heap": 2, "min": 2, "max": 2, "lexicographical_compare": 4}
+
+
+def _int_elements(ty):
+    """the first template argument of a container type is a plain integer type"""
+    if "<" not in ty:
+        return False
+    rest, depth, arg = ty[ty.index("<") + 1:], 0, ""
+    for ch in rest:
+        if ch in "<(":
+            depth += 1
+        elif ch in ">)" and depth > 0:
+            depth -= 1
+        elif ch in ",>" and depth == 0:
+            break
+        arg += ch
+    words = arg.replace("const", " ").split()
+    return bool(words) and all(w in ("long", "int", "unsigned", "signed", "short", "char", "size_t", "std::size_t", "ptrdiff_t", "std::ptrdiff_t") for w in words)
+
+
+def check_comp_threaded(ck, cx, tag):
+    """COMP-THREADED as in rules/parcommon.py (every ordering algorithm of the standard library called on the user's elements
+    receives the user's order), with a closed world for ranges that do not hold user elements: a range over the table of
+    sequence lengths or over a border array (integers this function computed) is not an ordering of user elements; a range
+    over another local container of integers is `cannot decide`."""
+    fn = cx.fn
+    comp = [fn.params[4]["did"]]
+    src = set()
+    for c in comp:
+        src |= comparator_sources(fn, c)
+    own = {cx.seqlen_did()} - {None}
+    try:
+        own |= set(border_arrays(cx))
+    except ir.AnalysisBroken:
+        pass
     n = 0
     for z in fn.nodes():
-        b = match.binop(z, ("<",)) if z["k"] == "BinaryOperator" else None
-        if not b or const_int(b[2]) != 0:
+        if "callee" not in z or not z["callee"]["qname"].startswith("std::") or z["callee"]["name"] not in STD_ORDER_ALGOS:
             continue
-        d = ref_of(b[1])
-        if d is None:
+        if z.get("member_call"):
             continue
-        decl = [v for v in fn.nodes() if v["k"] == "VarDecl" and v.get("did") == d]
-        if not decl:
+        # calls on plain integers (std::min of two sizes) do not order user elements
+        argtys = [(a.get("ty") or "") for a in kids(z)]
+        if z["callee"]["name"] in ("min", "max") and all(("long" in t or "int" in t) and "iterator" not in t for t in argtys):
+            continue
+        uses = any((x["k"] == "DeclRefExpr" and x["ref"]["id"] in src) or
+                   (x["k"] == "LambdaExpr" and any(c_.get("id") in src for c_ in x.get("captures", []))) for a in kids(z) for x in ir.walk(a))
+        if not uses and len(kids(z)) > _PLAIN_ARITY.get(z["callee"]["name"], 99):
+            raise dtable.Undecidable("%s: std::%s at line %s receives an ordering that this rule cannot trace to the caller's comparator"
+                                     % (fn.loc, z["callee"]["name"], z.get("l")))
+        if not uses:
+            # which containers do the range arguments walk over?
+            conts, plain = set(), True
+            for a in kids(z):
+                a0 = match.strip_conv(a)
+                if a0 is not None and a0.get("member_call") and a0["callee"]["name"] in ("begin", "end", "cbegin", "cend", "data") and \
+                        ref_of(kids(a0)[0]) in cx.L.decls:
+                    conts.add(ref_of(kids(a0)[0]))
+                else:
+                    plain = False
+            if plain and conts and conts <= own:
+                continue            # lengths / border positions computed here, not user elements
+            if plain and conts and all(_int_elements(cx.L.decls[d].get("ty") or "") for d in conts):
+                raise dtable.Undecidable("%s: std::%s at line %s runs over %s, a local container of integers whose contents this rule does not know"
+                                         % (fn.loc, z["callee"]["name"], z.get("l"), ", ".join(sorted(cx.name(d) for d in conts))))
+        n += 1
+        if not uses:
+            ck.violation("COMP-THREADED", fn.qname, "%s:%s" % (tag, z["callee"]["name"]),
+                         "std::%s() is called without the caller's comparator and falls back to operator<: with any other order (std::greater, "
+                         "key projections) the position it returns is meaningless" % z["callee"]["name"], fn.nloc(z))
+        else:
+            ck.ok("COMP-THREADED", "%s std::%s" % (tag, z["callee"]["name"]), "receives the caller's order", nontrivial=False)
+    return n
+
+
+# ------------------------------------------------------------------------------------------------ signedness
+def _sign_test(n):
+    """declaration-reference operand x if n is a test whose outcome depends on x being negative: x < 0, 0 > x, x >= 0, 0 <= x,
+    x <= -1, x > -1 (and mirror images)"""
+    b = match.binop(n, _CMP) if n["k"] == "BinaryOperator" else None
+    if not b:
+        return None
+    op, l, r = b
+    if ref_of(r) is not None and const_int(l) is not None and ref_of(l) is None:
+        op, l, r = _MIRROR[op], r, l
+    c = const_int(r)
+    if ref_of(l) is None or c is None:
+        return None
+    if (op in ("<", ">=") and c == 0) or (op in ("<=", ">") and c == -1):
+        return l
+    return None
+
+
+def check_signed_tests(ck, cx, tag):
+    """a local whose sign is tested (x < 0, x > 0 with both outcomes handled) must have a signed type in every instantiation"""
+    fn = cx.fn
+    n = 0
+    for z in fn.nodes():
+        l = _sign_test(z)
+        if l is None:
+            continue
+        d = ref_of(l)
+        decl = cx.L.decls.get(d)
+        if decl is None:
             continue
         n += 1
-        ty = (decl[0].get("ty") or "")
+        ty = (decl.get("ty") or "")
         if "unsigned" in ty:
-            ck.violation("SIGN-TEST-SIGNED", fn.qname, "%s:%s" % (tag, decl[0].get("name")),
+            # positive: the declared type in this instantiation
+            ck.violation("SIGN-TEST-SIGNED", fn.qname, "%s:%s" % (tag, decl.get("name")),
                          "`%s < 0` decides a branch of the refinement, but in this instantiation `%s` has type %s: the difference wraps, the branch is dead "
-                         "and the other one runs with a huge value" % (decl[0].get("name"), decl[0].get("name"), ty), fn.nloc(z))
+                         "and the other one runs with a huge value" % (decl.get("name"), decl.get("name"), ty), fn.nloc(z))
         else:
-            ck.ok("SIGN-TEST-SIGNED", "%s %s" % (tag, decl[0].get("name")), "type %s" % ty)
+            ck.ok("SIGN-TEST-SIGNED", "%s %s" % (tag, decl.get("name")), "type %s" % ty)
     return n
+
+
+# ------------------------------------------------------------------------------------------------ drivers
+def check_function(ck, fn, tag, is_partition, comp_threaded=False):
+    """all rules for one instantiation; a rule that cannot read its construct is deferred and does not hide what the others find"""
+    cx = Cx(fn)
+    ck.guarded(lambda: check_index_guards(ck, cx, tag))
+    ck.guarded(lambda: check_pq(ck, cx, tag))
+    ck.guarded(lambda: check_edge_scans(ck, cx, tag))
+    if is_partition:
+        ck.guarded(lambda: check_middle(ck, cx, tag))
+    if comp_threaded:
+        ck.guarded(lambda: check_comp_threaded(ck, cx, tag))
+    ck.guarded(lambda: check_signed_tests(ck, cx, tag))
 
 
 def check_partition_in(ck, tu):
@@ -549,15 +1469,9 @@ def check_partition_in(ck, tu):
     fps, fss = tu.find(qname=PART), tu.find(qname=SEL)
     n = 0
     for fp in fps:
-        tag = "partition<%s>" % fp.targs[1]
-        check_index_guards(ck, fp, tag)
-        check_pq_and_edges(ck, fp, tag, True)
-        check_signed_tests(ck, fp, tag)
+        check_function(ck, fp, "partition<%s>" % fp.targs[1], True)
         for fs in [f for f in fss if f.targs[2] == fp.targs[1]][:1]:
-            stag = "selection<%s>" % fs.targs[2]
-            check_index_guards(ck, fs, stag)
-            check_pq_and_edges(ck, fs, stag, False)
-            check_signed_tests(ck, fs, stag)
+            check_function(ck, fs, "selection<%s>" % fs.targs[2], False)
         n += 1
     return n
 
@@ -570,7 +1484,9 @@ def run(ck):
         "(element, sequence) pairs (found and fixed: it compared keys only, so runs of equal elements were split against the sequence order); every "
         "element access is reached only over branch edges that establish index < seqlen (or index - 1 with index > 0), one of them being exactly "
         "that bound, so no existing candidate is skipped; a left border that is still zero moves by K exactly when K <= seqlen; every standard ordering algorithm called inside receives the caller's comparator (COMP-THREADED); locals whose "
-        "sign is tested are signed in every instantiation, including an unsigned rank type (SIGN-TEST-SIGNED).")
+        "sign is tested are signed in every instantiation, including an unsigned rank type (SIGN-TEST-SIGNED). Violations are reported on positive "
+        "evidence only (a table row, a recognised element of the wrong edge, a concrete type, a fully read path); a construct the rules cannot read "
+        "is `cannot decide`.")
     types = ["int"] if ck.tier == "quick" else ["int", "std::string"]
     for t in types:
         tu = ir.extract("witness/C08_partition.cpp", defines=["WITNESS_T=" + t], extra_flags=["-include", "string"])
@@ -584,10 +1500,7 @@ def run(ck):
             fs = [f for f in fss if rank_ty(f, False) == rank_ty(fp, True)][0]
             suffix = "<%s>" % rank_ty(fp, True)
             for fn, tag, isp in ((fp, "partition" + suffix, True), (fs, "selection" + suffix, False)):
-                check_index_guards(ck, fn, tag)
-                check_pq_and_edges(ck, fn, tag, isp)
-                check_comp_threaded(ck, fn, tag)
-                check_signed_tests(ck, fn, tag)
+                check_function(ck, fn, tag, isp, comp_threaded=True)
     m = len(types)
     ck.floor("LEXI-TABLE", 4 * m)
     ck.floor("INDEX-GUARD", 4 * m)
